@@ -940,3 +940,1657 @@ Proof.
   - rewrite (HL eq_refl). reflexivity.
   - reflexivity.
 Qed.
+
+(* ================================================================ C15: patches and their dtype *)
+(* the Domain object of one patch: Line / Square / Cube / NCube, or a Mapping applied to it *)
+Definition patch_dom (p : patch) : domain :=
+  match p_map p with
+  | None => ncube_domain p
+  | Some m => match map_domain m (ncube_domain (lpatch p)) with Ok d => d | Err _ => ncube_domain p end
+  end.
+
+(* what NCube.__new__ guarantees, plus: no mapping is called "None" *)
+Definition patch_wf (p : patch) : Prop :=
+  length (p_min p) = p_dim p /\ length (p_max p) = p_dim p /\ 1 <= p_dim p
+  /\ p_lname p <> "" /\ p_map p <> Some "None".
+Definition patch_wf_b (p : patch) : bool :=
+  Nat.eqb (length (p_min p)) (p_dim p) && Nat.eqb (length (p_max p)) (p_dim p) && Nat.leb 1 (p_dim p)
+  && negb (String.eqb (p_lname p) "") && negb (opt_beq String.eqb (p_map p) (Some "None")).
+
+Lemma patch_wf_b_sound p : patch_wf_b p = true -> patch_wf p.
+Proof.
+  unfold patch_wf_b, patch_wf. rewrite !andb_true_iff, !negb_true_iff, !Nat.eqb_eq, Nat.leb_le.
+  intros [[[[A B] C] D] E]. repeat split; auto.
+  - intros H. rewrite H in D. discriminate.
+  - intros H. rewrite H in E. simpl in E. discriminate.
+Qed.
+
+Lemma map_lpatch m p : p_map p = Some m -> map_patch m (lpatch p) = p.
+Proof. destruct p as [n mp d a b]. simpl. intros ->. reflexivity. Qed.
+
+Lemma lpatch_unmapped p : p_map p = None -> lpatch p = p.
+Proof. destruct p as [n mp d a b]. simpl. intros ->. reflexivity. Qed.
+
+Lemma patch_dom_fields p :
+  d_interiors (patch_dom p) = [p] /\ d_dim (patch_dom p) = p_dim p /\ d_name (patch_dom p) = pname p
+  /\ d_conn (patch_dom p) = [] /\ patch_like p (patch_dom p).
+Proof.
+  unfold patch_dom. destruct (p_map p) as [m|] eqn:E.
+  - destruct (mapped_patch_like m (lpatch p) eq_refl) as [d [Hd [Hl [Hi [_ [_ Hc]]]]]].
+    rewrite Hd. rewrite (map_lpatch m p E) in *.
+    split; [exact Hi|]. split.
+    { unfold map_domain in Hd. simpl in Hd. inversion Hd. reflexivity. }
+    split.
+    { unfold map_domain in Hd. simpl in Hd. inversion Hd. simpl. unfold pname. now rewrite E. }
+    split; [exact Hc|exact Hl].
+  - unfold ncube_domain. simpl. split; [reflexivity|]. split; [reflexivity|].
+    split; [unfold pname; now rewrite E|]. split; [reflexivity|]. apply ncube_patch_like.
+Qed.
+
+Lemma patch_like_two q d : patch_like q d -> 1 <= p_dim q -> 2 <= length (d_boundary d).
+Proof.
+  intros H Hd.
+  assert (A : In (mkFace q 0 1%Z) (d_boundary d)) by (apply H; exists 0, 1%Z; auto).
+  assert (B : In (mkFace q 0 (-1)%Z) (d_boundary d)) by (apply H; exists 0, (-1)%Z; auto).
+  destruct (d_boundary d) as [|x [|y l]].
+  - destruct A.
+  - destruct A as [A|[]], B as [B|[]]. rewrite A in B. discriminate.
+  - simpl. lia.
+Qed.
+
+Lemma dtype_roundtrip p :
+  patch_wf p -> dtype_new (p_lname p) (dtype_of p) = Ok (ncube_domain (lpatch p)).
+Proof.
+  intros [Hmin [Hmax [Hd [Hn _]]]].
+  assert (En : String.eqb (p_lname p) "" = false) by (now apply String.eqb_neq).
+  destruct p as [n mp d mn mx]. simpl in *. unfold dtype_of, lpatch; simpl.
+  destruct d as [|[|[|[|d]]]]; [lia| | | |].
+  - destruct mn as [|a [|? ?]]; try discriminate. destruct mx as [|b [|? ?]]; try discriminate.
+    simpl. unfold ncube_new. rewrite En. reflexivity.
+  - destruct mn as [|a [|a2 [|? ?]]]; try discriminate. destruct mx as [|b [|b2 [|? ?]]]; try discriminate.
+    simpl. unfold ncube_new. rewrite En. reflexivity.
+  - destruct mn as [|a [|a2 [|a3 [|? ?]]]]; try discriminate. destruct mx as [|b [|b2 [|b3 [|? ?]]]]; try discriminate.
+    simpl. unfold ncube_new. rewrite En. reflexivity.
+  - simpl. unfold ncube_new. rewrite En, Hmin, Hmax, Nat.eqb_refl. reflexivity.
+Qed.
+
+Lemma mapping_str_none p : p_map p <> Some "None" -> (String.eqb (mapping_str p) "None" = true <-> p_map p = None).
+Proof.
+  unfold mapping_str. destruct (p_map p) as [m|]; intros H.
+  - rewrite String.eqb_eq. split; [intros ->; contradiction|discriminate].
+  - rewrite String.eqb_refl. tauto.
+Qed.
+
+Lemma from_dict_patch p :
+  patch_wf p ->
+  (if String.eqb (mapping_str p) "None" then Ok (ncube_domain (lpatch p))
+   else map_domain (mapping_str p) (ncube_domain (lpatch p))) = Ok (patch_dom p).
+Proof.
+  intros [_ [_ [_ [_ Hm]]]]. pose proof (mapping_str_none p Hm) as H. unfold patch_dom.
+  destruct (p_map p) as [m|] eqn:E.
+  - destruct (String.eqb (mapping_str p) "None") eqn:E2; [destruct H as [H _]; specialize (H eq_refl); discriminate|].
+    unfold mapping_str. rewrite E.
+    destruct (mapped_patch_like m (lpatch p) eq_refl) as [d [Hd _]]. now rewrite Hd.
+  - rewrite (proj2 H eq_refl). now rewrite (lpatch_unmapped p E).
+Qed.
+
+(* ---------------------------------------------------------------- list utilities *)
+Lemma mapM_map_ok {A B C} (f : A -> res B) (g : C -> A) (h : C -> B) l :
+  (forall c, In c l -> f (g c) = Ok (h c)) -> mapM f (map g l) = Ok (map h l).
+Proof.
+  induction l as [|c l IH]; simpl; intros H; [reflexivity|].
+  rewrite (H c (or_introl eq_refl)). simpl. rewrite IH; auto.
+Qed.
+
+Lemma mapM_exists {A B} (f : A -> res B) l :
+  (forall a, In a l -> exists b, f a = Ok b) -> exists l', mapM f l = Ok l'.
+Proof.
+  induction l as [|a l IH]; simpl; intros H; [eauto|].
+  destruct (H a (or_introl eq_refl)) as [b Hb]. destruct IH as [l' Hl]; [auto|].
+  rewrite Hb. simpl. rewrite Hl. simpl. eauto.
+Qed.
+
+Lemma combine_map {A B C} (f : A -> B) (g : A -> C) l :
+  combine (map f l) (map g l) = map (fun x => (f x, g x)) l.
+Proof. induction l; simpl; congruence. Qed.
+
+Lemma index_of_notin k l : forall i acc, ~ In k l -> index_of k l i acc = acc.
+Proof.
+  induction l as [|s l IH]; simpl; intros i acc H; [reflexivity|].
+  destruct (String.eqb_spec s k) as [->|Hne]; [exfalso; auto|]. apply IH. tauto.
+Qed.
+
+Lemma index_of_unique k l : forall i acc, NoDup l -> In k l ->
+  exists j, index_of k l i acc = Some (i + j) /\ nth_error l j = Some k.
+Proof.
+  induction l as [|s l IH]; simpl; intros i acc ND Hin; [tauto|].
+  inversion ND as [|? ? Hn Hd]; subst.
+  destruct (String.eqb_spec s k) as [->|Hne].
+  - exists 0. rewrite (index_of_notin k l (S i) (Some i) Hn). rewrite Nat.add_0_r. split; reflexivity.
+  - destruct Hin as [E|Hin]; [contradiction|].
+    destruct (IH (S i) acc Hd Hin) as [j [Hj Hnth]]. exists (S j).
+    rewrite Hj. split; [f_equal; lia|exact Hnth].
+Qed.
+
+Lemma patch_index_ok (ints : list patch) p :
+  NoDup (map p_lname ints) -> In p ints ->
+  exists k, patch_index (map p_lname ints) (p_lname p) = Ok k /\ nth_error ints k = Some p.
+Proof.
+  intros ND Hin. unfold patch_index.
+  destruct (index_of_unique (p_lname p) (map p_lname ints) 0 None ND (in_map _ _ _ Hin)) as [j [Hj Hn]].
+  rewrite Hj. exists j. split; [reflexivity|]. simpl.
+  rewrite nth_error_map in Hn. destruct (nth_error ints j) as [q|] eqn:E; [|discriminate].
+  simpl in Hn. inversion Hn as [Hq]. f_equal.
+  (* injectivity of the logical name on the members *)
+  clear Hj Hn. revert j E. induction ints as [|a l IH]; intros j E; [destruct j; discriminate|].
+  simpl in ND. inversion ND as [|? ? Hn Hd]; subst.
+  destruct j as [|j]; simpl in E.
+  - inversion E; subst a. destruct Hin as [->|Hin]; [reflexivity|].
+    exfalso. apply Hn. rewrite Hq. now apply in_map.
+  - destruct Hin as [->|Hin].
+    + exfalso. apply Hn. rewrite <- Hq. apply in_map. eapply nth_error_In; eauto.
+    + eapply IH; eauto.
+Qed.
+
+Lemma sort_sorted_id {A} (key : A -> string) (l : list A) :
+  StronglySorted (kle key) l -> sort key l = l.
+Proof.
+  induction 1 as [|a l Hs IH Hall]; simpl; [reflexivity|]. rewrite IH.
+  destruct l as [|b l]; [reflexivity|]. simpl.
+  inversion Hall as [|? ? Hab _]; subst. unfold kle in Hab. now rewrite Hab.
+Qed.
+
+(* ================================================================ C15: round trip of a single patch *)
+Theorem roundtrip_single p :
+  patch_wf p ->
+  exists fd, todict (patch_dom p) = Ok fd /\ from_dict fd = Ok (patch_dom p)
+             /\ fd_name fd = pname p /\ fd_dim fd = p_dim p /\ fd_dtype fd = One (dtype_of p)
+             /\ fd_interior fd = One (fint_of p) /\ fd_conn fd = [].
+Proof.
+  intros W. destruct (patch_dom_fields p) as [Hi [Hd [Hn [Hc Hl]]]].
+  pose proof (patch_like_two _ _ Hl (proj1 (proj2 (proj2 W)))) as H2.
+  set (B := d_boundary (patch_dom p)) in *.
+  exists (mkFdict (pname p) (p_dim p) (One (dtype_of p)) (One (fint_of p)) (Many (map fbnd_of B)) []).
+  split.
+  - unfold todict. rewrite Hi, Hc, Hn, Hd. fold B.
+    destruct B as [|b1 [|b2 l]]; simpl in H2; try lia. reflexivity.
+  - split; [|simpl; auto].
+    unfold from_dict. simpl fd_interior. simpl fd_dtype. cbn [bind].
+    cbv beta iota. simpl combine. simpl mapM. rewrite (dtype_roundtrip p W). cbn [bind]. simpl combine.
+    simpl mapM. unfold fint_of at 1 2. simpl fi_mapping. simpl fst. simpl snd.
+    rewrite (from_dict_patch p W). cbn [bind].
+    simpl fd_boundary. simpl fd_conn. simpl map.
+    assert (HB : exists l', mapM (fun bd : fbnd =>
+                  do i <- patch_index [p_lname p] (fb_patch bd);
+                  match nth_error [patch_dom p] i with
+                  | Some dm => get_boundary dm (fb_axis bd) (fb_ext bd)
+                  | None => Err EIndex
+                  end) (map fbnd_of B) = Ok l').
+    { apply mapM_exists. intros bd Hbd. apply in_map_iff in Hbd. destruct Hbd as [f [<- Hf]].
+      apply Hl in Hf. destruct Hf as [a [e [-> [Ha He]]]]. unfold fbnd_of; simpl.
+      unfold patch_index. simpl. rewrite String.eqb_refl. simpl.
+      destruct (get_boundary_patch p (patch_dom p) a e Hl) as [Hok _]. rewrite Hok; eauto. }
+    destruct HB as [l' HB]. rewrite HB. reflexivity.
+Qed.
+
+(* ================================================================ C15: round trip of a joined domain *)
+Lemma join_inv_checks ps cs nm D :
+  2 <= length ps -> join ps cs nm = Ok D ->
+  forallb (fun p => Nat.eqb (d_dim p) (join_dim ps)) ps = true
+  /\ existsb (fun p => Nat.ltb (length (d_boundary p)) 2) ps = false
+  /\ length (d_boundary D) <> 1 /\ 2 <= length (d_interiors D).
+Proof.
+  destruct ps as [|p0 [|p1 r]]; simpl length; try lia. intros _.
+  unfold join. set (ps := p0 :: p1 :: r).
+  destruct (forallb (fun p => Nat.eqb (d_dim p) (d_dim p0)) ps) eqn:Hd; [|discriminate]. simpl negb. cbv iota.
+  intros H. apply bind_ok in H. destruct H as [[ifs joined] [Hl H]].
+  destruct (existsb (fun p => Nat.ltb (length (d_boundary p)) 2) ps) eqn:He; [discriminate|].
+  match type of H with (if Nat.eqb (length ?b) 1 then _ else _) = _ => set (bnd := b) in * end.
+  destruct (Nat.eqb (length bnd) 1) eqn:E1; [discriminate|].
+  destruct (Nat.ltb (length (canonP (flat_map d_interiors ps))) 2) eqn:E2; [discriminate|].
+  apply Nat.eqb_neq in E1. apply Nat.ltb_ge in E2.
+  split; [exact Hd|]. split; [reflexivity|].
+  destruct (forallb is_mapped (canonP (flat_map d_interiors ps))).
+  - apply bind_ok in H. destruct H as [lifs [_ H]]. inversion H; subst D. simpl. auto.
+  - inversion H; subst D. simpl. auto.
+Qed.
+
+Definition default_ornt (dim : nat) : ornt :=
+  match dim with 2 => O2 1 | 3 => O3 1 1 1 | _ => ONone end.
+
+Lemma ornt_of_default dim o o' : ornt_of dim o = Ok o' -> ornt_of dim None = Ok (default_ornt dim).
+Proof. destruct dim as [|[|[|[|d]]]]; simpl; try discriminate; auto. Qed.
+
+(* what Connectivity.todict keeps of an interface: everything but the orientation *)
+Definition reset_ornt (o : ornt) (i : iface) : iface := mkIface (i_name i) (i_minus i) (i_plus i) o.
+
+Lemma flat_map_patch_dom_interiors pl : flat_map d_interiors (map patch_dom pl) = pl.
+Proof.
+  induction pl as [|p pl IH]; simpl; [reflexivity|].
+  destruct (patch_dom_fields p) as [Hi _]. rewrite Hi, IH. reflexivity.
+Qed.
+
+Lemma all_faces_patch_dom pl f :
+  In f (all_faces (map patch_dom pl)) <->
+  exists p a e, In p pl /\ f = mkFace p a e /\ a < p_dim p /\ (e = 1%Z \/ e = (-1)%Z).
+Proof.
+  unfold all_faces. rewrite in_flat_map. split.
+  - intros [d [Hd Hf]]. apply in_map_iff in Hd. destruct Hd as [p [<- Hp]].
+    destruct (patch_dom_fields p) as [_ [_ [_ [_ Hl]]]]. apply Hl in Hf.
+    destruct Hf as [a [e [-> H]]]. exists p, a, e. tauto.
+  - intros [p [a [e [Hp [-> H]]]]]. exists (patch_dom p). split; [now apply in_map|].
+    destruct (patch_dom_fields p) as [_ [_ [_ [_ Hl]]]]. apply Hl. exists a, e. tauto.
+Qed.
+
+Lemma build_ifs_fresh : forall rl ifs,
+  (forall x, In x rl -> bjoin (rminus x) (rplus x) (rornt x) = Ok (mk_iface (rminus x) (rplus x) (rornt x))) ->
+  NoDup (map i_name ifs ++ map (fun x => i_name (mk_iface (rminus x) (rplus x) (rornt x))) rl) ->
+  build_ifs rl ifs = Ok (ifs ++ map (fun x => mk_iface (rminus x) (rplus x) (rornt x)) rl).
+Proof.
+  induction rl as [|x rl IH]; simpl; intros ifs Hb ND; [now rewrite app_nil_r|].
+  destruct x as [[fm fp] o]. unfold join_step.
+  pose proof (Hb (fm, fp, o) (or_introl eq_refl)) as H0. unfold rminus, rplus, rornt in H0. simpl in H0.
+  rewrite H0. cbn [bind].
+  assert (Hfr : dict_mem (i_name (mk_iface fm fp o)) ifs = false).
+  { destruct (dict_mem (i_name (mk_iface fm fp o)) ifs) eqn:Hm; [|reflexivity]. exfalso.
+    apply dict_mem_In in Hm. destruct Hm as [j [Hj Ej]].
+    apply NoDup_app_inv in ND. destruct ND as [_ [_ Hd]].
+    apply (Hd (i_name j)); [now apply in_map|]. left. unfold rminus, rplus, rornt; simpl. now symmetry. }
+  rewrite Hfr. cbn [bind]. rewrite (dict_set_fresh _ _ Hfr).
+  rewrite IH.
+  - unfold rminus, rplus, rornt. simpl. now rewrite <- app_assoc.
+  - intros y Hy. apply Hb. now right.
+  - rewrite map_app. simpl. rewrite <- app_assoc. exact ND.
+Qed.
+
+Lemma logical_conn_total : forall l acc,
+  (forall i, In i l -> is_mapped (f_patch (i_minus i)) && is_mapped (f_patch (i_plus i)) = true) ->
+  exists lifs, logical_conn l acc = Ok lifs.
+Proof.
+  induction l as [|v l IH]; simpl; intros acc H; [eauto|].
+  unfold iface_logical. rewrite (H v (or_introl eq_refl)). apply IH. intros i Hi. apply H. now right.
+Qed.
+
+Lemma StronglySorted_map_key {A} (key : A -> string) (f : A -> A) l :
+  (forall a, key (f a) = key a) -> StronglySorted (kle key) l -> StronglySorted (kle key) (map f l).
+Proof.
+  intros Hk. induction 1 as [|a l Hs IH Hall]; simpl; constructor; auto.
+  rewrite Forall_forall in *. intros b Hb. apply in_map_iff in Hb. destruct Hb as [c [<- Hc]].
+  unfold kle. rewrite !Hk. now apply Hall.
+Qed.
+
+(* two canonical face lists with the same members are the same list *)
+Lemma canonF_ext l1 l2 : fwf (l1 ++ l2) -> (forall f, In f l1 <-> In f l2) -> canonF l1 = canonF l2.
+Proof. intros W H. unfold canonF. now apply canon_set_ext. Qed.
+
+Lemma join_boundary_pre A X :
+  exists Z, join_boundary A X = canonF Z /\
+    (fwf (all_faces A ++ joined_faces X) ->
+     forall f, In f Z <-> In f (all_faces A) /\ ~ In f (joined_faces X)).
+Proof.
+  unfold join_boundary. destruct (joined_faces X) as [|j0 jr] eqn:Ej.
+  - exists (all_faces A). split; [reflexivity|]. intros _ f. simpl. tauto.
+  - rewrite <- Ej. eexists. split; [reflexivity|]. intros W g.
+    assert (Wa : fwf (all_faces A)) by (eapply fwf_sub; [|exact W]; intros; apply in_or_app; auto).
+    assert (Wj : fwf (joined_faces X)) by (eapply fwf_sub; [|exact W]; intros; apply in_or_app; auto).
+    rewrite filter_In. unfold canonF. rewrite (canon_In _ _ _ _ Wa). split.
+    + intros [Hg Hn]. split; [exact Hg|]. intros Hj. apply negb_true_iff in Hn.
+      assert (mem face_pyeqb g (canon face_pyeqb face_str (joined_faces X)) = true); [|congruence].
+      apply (fmem_In (all_faces A ++ joined_faces X)); auto.
+      * apply in_or_app; auto.
+      * intros y Hy. apply (canon_In _ _ _ _ Wj) in Hy. apply in_or_app; auto.
+      * now apply (canon_In _ _ _ _ Wj).
+    + intros [Hg Hn]. split; [exact Hg|]. apply negb_true_iff.
+      destruct (mem face_pyeqb g (canon face_pyeqb face_str (joined_faces X))) eqn:E; [|reflexivity].
+      exfalso. apply Hn.
+      apply (fmem_In (all_faces A ++ joined_faces X)) in E; auto.
+      * now apply (canon_In _ _ _ _ Wj) in E.
+      * apply in_or_app; auto.
+      * intros y Hy. apply (canon_In _ _ _ _ Wj) in Hy. apply in_or_app; auto.
+Qed.
+
+Lemma join_boundary_ext A X B Y U :
+  fwf U -> incl (all_faces A) U -> incl (joined_faces X) U -> incl (all_faces B) U -> incl (joined_faces Y) U ->
+  (forall f, In f (all_faces A) <-> In f (all_faces B)) ->
+  (forall f, In f (joined_faces X) <-> In f (joined_faces Y)) ->
+  join_boundary A X = join_boundary B Y.
+Proof.
+  intros W IA IX IB IY HA HX.
+  destruct (join_boundary_pre A X) as [Z1 [E1 H1]]. destruct (join_boundary_pre B Y) as [Z2 [E2 H2]].
+  rewrite E1, E2.
+  assert (W1 : fwf (all_faces A ++ joined_faces X)).
+  { eapply fwf_sub; [|exact W]. intros f Hf. apply in_app_or in Hf. destruct Hf; auto. }
+  assert (W2 : fwf (all_faces B ++ joined_faces Y)).
+  { eapply fwf_sub; [|exact W]. intros f Hf. apply in_app_or in Hf. destruct Hf; auto. }
+  specialize (H1 W1). specialize (H2 W2).
+  apply canonF_ext.
+  - eapply fwf_sub; [|exact W]. intros f Hf. apply in_app_or in Hf.
+    destruct Hf as [Hf|Hf]; [apply H1 in Hf|apply H2 in Hf]; destruct Hf; auto.
+  - intros f. rewrite H1, H2, HA, HX. tauto.
+Qed.
+
+Lemma dict_set_Forall (P : iface -> Prop) i l : P i -> Forall P l -> Forall P (dict_set i l).
+Proof.
+  intros Hi. induction 1 as [|j l Hj H IH]; simpl; [repeat constructor; auto|].
+  destruct (String.eqb (i_name j) (i_name i)); constructor; auto.
+Qed.
+
+Lemma build_ifs_Forall (P : iface -> Prop) :
+  (forall fm fp o i, bjoin fm fp o = Ok i -> P i) ->
+  forall rl ifs ifs', build_ifs rl ifs = Ok ifs' -> Forall P ifs -> Forall P ifs'.
+Proof.
+  intros HP. induction rl as [|x rl IH]; simpl; intros ifs ifs' H HF.
+  - inversion H; now subst.
+  - apply bind_ok in H. destruct H as [ifs1 [Hs H]]. apply (IH _ _ H).
+    unfold join_step in Hs. destruct x as [[fm fp] o].
+    apply bind_ok in Hs. destruct Hs as [i0 [Hi0 Hs]]. apply bind_ok in Hs. destruct Hs as [i [Hi Hs]].
+    inversion Hs; subst. apply dict_set_Forall; [|exact HF].
+    destruct (dict_mem (i_name i0) ifs); [eapply HP; eauto|]. inversion Hi; subst. eapply HP; eauto.
+Qed.
+
+Definition iface_ok (i : iface) : Prop :=
+  f_axis (i_minus i) = f_axis (i_plus i)
+  /\ i_name i = iname (pname (f_patch (i_minus i))) (pname (f_patch (i_plus i))).
+
+Lemma bjoin_iface_ok fm fp o i : bjoin fm fp o = Ok i -> iface_ok i.
+Proof. intros H. apply bjoin_ok in H. destruct H as [-> Ha]. split; [exact Ha|reflexivity]. Qed.
+
+Definition pidx (ints : list patch) (p : patch) : nat :=
+  match patch_index (map p_lname ints) (p_lname p) with Ok k => k | Err _ => 0 end.
+Definition conn_of (ints : list patch) (i : iface) : conn :=
+  mkConn (mkSide (PIdx (pidx ints (f_patch (i_minus i)))) (f_axis (i_minus i)) (f_ext (i_minus i)))
+         (mkSide (PIdx (pidx ints (f_patch (i_plus i)))) (f_axis (i_plus i)) (f_ext (i_plus i))) None.
+Definition fconn_of (i : iface) : string * (fbnd * fbnd) :=
+  (i_name i, (fbnd_of (i_minus i), fbnd_of (i_plus i))).
+
+(* the file content of a joined domain *)
+Definition fdict_of (D : domain) : fdict :=
+  mkFdict (d_name D) (d_dim D) (Many (map dtype_of (d_interiors D))) (Many (map fint_of (d_interiors D)))
+          (Many (map fbnd_of (d_boundary D))) (map fconn_of (sort i_name (d_conn D))).
+
+Lemma todict_multi D :
+  2 <= length (d_interiors D) -> 2 <= length (d_boundary D) -> todict D = Ok (fdict_of D).
+Proof.
+  intros Hi Hb. unfold todict, fdict_of.
+  destruct (d_interiors D) as [|p1 [|p2 l]]; simpl in Hi; try lia.
+  destruct (d_boundary D) as [|b1 [|b2 lb]]; simpl in Hb; try lia.
+  reflexivity.
+Qed.
+
+Lemma face_eta f : mkFace (f_patch f) (f_axis f) (f_ext f) = f.
+Proof. destruct f; reflexivity. Qed.
+
+Lemma NoDup_map_of_inj {A B} (f : A -> B) l :
+  NoDup l -> (forall x y, In x l -> In y l -> f x = f y -> x = y) -> NoDup (map f l).
+Proof.
+  induction 1 as [|a l Hn Hd IH]; simpl; intros Hinj; [constructor|]. constructor.
+  - intros Hin. apply in_map_iff in Hin. destruct Hin as [b [E Hb]].
+    assert (a = b) by (apply Hinj; auto). subst. contradiction.
+  - apply IH. intros; apply Hinj; auto.
+Qed.
+
+Lemma resolve_all_ornt ps cs rl :
+  resolve_all ps cs = Ok rl -> rl <> [] -> ornt_of (join_dim ps) None = Ok (default_ornt (join_dim ps)).
+Proof.
+  unfold resolve_all. intros HR Hne. apply mapM_Forall2 in HR.
+  destruct rl as [|x rl0]; [congruence|]. inversion HR as [|c x' cs0 rl1 Hc _]; subst.
+  destruct x as [[fm fp] o]. apply resolve_conn_ok in Hc.
+  destruct Hc as [pm [pp [_ [_ [_ [_ Ho]]]]]]. eapply ornt_of_default; eauto.
+Qed.
+
+Lemma Forall2_nil_r {A B} (R : A -> B -> Prop) l l' : Forall2 R l l' -> l' <> [] -> l <> [].
+Proof. intros H Hn E. subst. inversion H. congruence. Qed.
+
+Lemma by_indices_conn_of ints l : l <> [] -> by_indices (map (conn_of ints) l) = true.
+Proof. destruct l; [congruence|reflexivity]. Qed.
+
+Section RoundTrip.
+  Variable pl : list patch.
+  Let ps := map patch_dom pl.
+  Variables (cs : list conn) (nm : string) (D : domain) (rl : list (face * face * ornt)).
+  Hypothesis Wp : forall p, In p pl -> patch_wf p.
+  Hypothesis Wl : NoDup (map p_lname pl).
+  Hypothesis Wn : pwf pl.
+  Hypothesis Wf : fwf (all_faces ps).
+  Hypothesis Hlen : 2 <= length pl.
+  Hypothesis HJ : join ps cs nm = Ok D.
+  Hypothesis HR : resolve_all ps cs = Ok rl.
+  Hypothesis Wj : NoDup (joined_faces rl).
+  Hypothesis Wb : rl_no_bar rl.
+  Hypothesis Wc : pair_bound rl.
+  Hypothesis Wi : forall f, In f (joined_faces rl) -> In f (all_faces ps).
+  Hypothesis Hb2 : 2 <= length (d_boundary D).
+
+  Let ints := d_interiors D.
+  Let dim := d_dim D.
+
+  Lemma len_ps : 2 <= length ps.
+  Proof. unfold ps. now rewrite map_length. Qed.
+
+  Lemma ints_eq : ints = canonP pl.
+  Proof.
+    destruct (join_inv _ _ _ _ len_ps HJ) as [rl' [ifs [_ [_ [_ [_ [_ [Hi _]]]]]]]].
+    unfold ints. rewrite Hi. unfold ps. now rewrite flat_map_patch_dom_interiors.
+  Qed.
+
+  Lemma ints_In p : In p ints <-> In p pl.
+  Proof. rewrite ints_eq. unfold canonP. apply (canon_In _ _ _ _ Wn). Qed.
+
+  Lemma ints_NoDup : NoDup ints.
+  Proof. rewrite ints_eq. apply (canon_NoDup _ _ _ _ Wn). Qed.
+
+  Lemma lname_inj p q : In p pl -> In q pl -> p_lname p = p_lname q -> p = q.
+  Proof.
+    clear - Wl. induction pl as [|a l IH]; simpl; [tauto|]. inversion Wl as [|? ? Hn Hd]; subst.
+    intros [->|Hp] [->|Hq] E; auto.
+    - exfalso. apply Hn. rewrite E. now apply in_map.
+    - exfalso. apply Hn. rewrite <- E. now apply in_map.
+  Qed.
+
+  Lemma ints_lnames : NoDup (map p_lname ints).
+  Proof.
+    apply NoDup_map_of_inj; [apply ints_NoDup|].
+    intros x y Hx Hy. apply lname_inj; now apply ints_In.
+  Qed.
+
+  Lemma ints_len : 2 <= length ints.
+  Proof. apply (join_inv_checks _ _ _ _ len_ps HJ). Qed.
+
+  Let ifs := d_conn D.
+  Let sorted := sort i_name ifs.
+
+  Lemma orig_facts :
+    Forall2 declared_as rl ifs /\ NoDup (map i_name ifs) /\ Forall iface_ok ifs
+    /\ d_boundary D = join_boundary ps rl /\ d_name D = nm /\ dim = join_dim ps.
+  Proof.
+    destruct (join_declared _ _ _ _ _ len_ps HJ HR Wb Wc) as [HD HN].
+    destruct (join_inv _ _ _ _ len_ps HJ) as [rl' [ifs' [Hr' [Hb [Hnm [Hdim [Hc [_ [Hbd _]]]]]]]]].
+    rewrite HR in Hr'. inversion Hr'; subst rl'.
+    split; [exact HD|]. split; [exact HN|]. split.
+    - unfold ifs. rewrite Hc. apply (build_ifs_Forall iface_ok bjoin_iface_ok _ _ _ Hb). constructor.
+    - auto.
+  Qed.
+
+  Lemma side_faces i : In i ifs ->
+    In (i_minus i) (joined_faces rl) /\ In (i_plus i) (joined_faces rl).
+  Proof.
+    destruct orig_facts as [HD _]. revert i. clear - HD.
+    induction HD as [|x i rl0 ifs0 Hx _ IH]; simpl; [tauto|].
+    intros j [<-|Hj].
+    - destruct Hx as [[[E1 E2]|[E1 E2]] _]; rewrite E1, E2; auto.
+    - destruct (IH j Hj). split; right; right; assumption.
+  Qed.
+
+  Lemma face_valid f : In f (all_faces ps) ->
+    In (f_patch f) ints /\ f_axis f < p_dim (f_patch f) /\ (f_ext f = 1%Z \/ f_ext f = (-1)%Z).
+  Proof.
+    intros Hf. apply all_faces_patch_dom in Hf. destruct Hf as [p [a [e [Hp [-> H]]]]]. simpl.
+    split; [now apply ints_In|exact H].
+  Qed.
+
+  Lemma lookup_face f : In f (all_faces ps) ->
+    patch_index (map p_lname ints) (p_lname (f_patch f)) = Ok (pidx ints (f_patch f))
+    /\ nth_error (map patch_dom ints) (pidx ints (f_patch f)) = Some (patch_dom (f_patch f))
+    /\ get_boundary (patch_dom (f_patch f)) (f_axis f) (f_ext f) = Ok f.
+  Proof.
+    intros Hf. destruct (face_valid f Hf) as [Hp [Ha He]].
+    destruct (patch_index_ok ints (f_patch f) ints_lnames Hp) as [k [Hk Hn]].
+    unfold pidx. rewrite Hk. split; [reflexivity|]. split.
+    - rewrite nth_error_map, Hn. reflexivity.
+    - destruct (patch_dom_fields (f_patch f)) as [_ [_ [_ [_ Hl]]]].
+      destruct (get_boundary_patch _ _ (f_axis f) (f_ext f) Hl) as [Hok _].
+      rewrite Hok; [|auto]. now rewrite face_eta.
+  Qed.
+
+  Lemma patch_dims p : In p pl -> p_dim p = dim.
+  Proof.
+    intros Hp. destruct orig_facts as [_ [_ [_ [_ [_ Hd]]]]]. rewrite Hd.
+    destruct (join_inv_checks _ _ _ _ len_ps HJ) as [Hf _].
+    rewrite forallb_forall in Hf. specialize (Hf (patch_dom p) (in_map _ _ _ Hp)).
+    apply Nat.eqb_eq in Hf. destruct (patch_dom_fields p) as [_ [Hdd _]]. congruence.
+  Qed.
+
+  Lemma declared_sides_perm : Permutation (flat_map isides ifs) (joined_faces rl).
+  Proof.
+    destruct orig_facts as [HD _]. clear - HD.
+    induction HD as [|x i rl0 ifs0 Hx _ IH]; simpl; [constructor|].
+    destruct Hx as [[[E1 E2]|[E1 E2]] _]; unfold isides, rsides; rewrite E1, E2; simpl.
+    - now do 2 constructor.
+    - eapply perm_trans; [apply perm_swap|]. now do 2 constructor.
+  Qed.
+
+  Let dflt := default_ornt dim.
+  Let rl' := map (fun i => (i_minus i, i_plus i, dflt)) sorted.
+  Let cs' := map (conn_of ints) sorted.
+  Let P' := map patch_dom ints.
+
+  Lemma sorted_In i : In i sorted <-> In i ifs.
+  Proof. apply sort_In. Qed.
+
+  Lemma side_all i : In i ifs -> In (i_minus i) (all_faces ps) /\ In (i_plus i) (all_faces ps).
+  Proof. intros Hi. destruct (side_faces i Hi). split; apply Wi; assumption. Qed.
+
+  Lemma dim_ok : ifs <> [] -> ornt_of dim None = Ok dflt.
+  Proof.
+    intros Hne. destruct orig_facts as [HD [_ [_ [_ [_ Hd]]]]].
+    unfold dflt. rewrite Hd. apply (resolve_all_ornt ps cs rl HR). eapply Forall2_nil_r; eauto.
+  Qed.
+
+  Lemma join_dim_P' : join_dim P' = dim.
+  Proof.
+    pose proof ints_len as HL. pose proof ints_In as HI. unfold P'.
+    destruct ints as [|a l]; simpl in HL; [lia|]. simpl.
+    destruct (patch_dom_fields a) as [_ [Hd _]]. rewrite Hd. apply patch_dims. apply HI. now left.
+  Qed.
+
+  Lemma resolve' : resolve_all P' cs' = Ok rl'.
+  Proof.
+    unfold resolve_all. rewrite join_dim_P'.
+    assert (HM : forall bi l, (l <> [] -> bi = true) -> (forall i, In i l -> In i ifs) ->
+                 mapM (resolve_conn P' bi dim) (map (conn_of ints) l) = Ok (map (fun i => (i_minus i, i_plus i, dflt)) l)).
+    { intros bi l Hbi Hl. apply mapM_map_ok. intros i Hi.
+      assert (Hs : l <> []) by (intros E; rewrite E in Hi; destruct Hi).
+      rewrite (Hbi Hs). pose proof (Hl i Hi) as Hi'. destruct (side_all i Hi') as [Hm Hp].
+      destruct (lookup_face _ Hm) as [_ [Nm Gm]]. destruct (lookup_face _ Hp) as [_ [Np Gp]].
+      unfold resolve_conn, conn_of. simpl. change P' with (map patch_dom ints). rewrite Nm, Np. cbn [bind]. rewrite Gm, Gp. cbn [bind].
+      rewrite dim_ok; [reflexivity|]. intros E. rewrite E in Hi'. destruct Hi'. }
+    apply HM.
+    - apply by_indices_conn_of.
+    - intros i. apply sorted_In.
+  Qed.
+
+  Lemma bjoin_default fm fp :
+    p_dim (f_patch fm) = dim -> p_dim (f_patch fp) = dim -> f_axis fm = f_axis fp ->
+    bjoin fm fp dflt = Ok (mk_iface fm fp dflt).
+  Proof.
+    intros H1 H2 H3. unfold bjoin. rewrite H1, H2, H3, !Nat.eqb_refl. simpl negb. cbv iota.
+    unfold dflt, default_ornt. destruct (Nat.eqb dim 3) eqn:E.
+    - apply Nat.eqb_eq in E. rewrite E. reflexivity.
+    - reflexivity.
+  Qed.
+
+  Lemma build' : build_ifs rl' [] = Ok (map (reset_ornt dflt) sorted).
+  Proof.
+    destruct orig_facts as [_ [HN [HF _]]]. rewrite Forall_forall in HF.
+    assert (E : map (reset_ornt dflt) sorted = [] ++ map (fun x => mk_iface (rminus x) (rplus x) (rornt x)) rl').
+    { simpl. unfold rl'. rewrite map_map. apply map_ext_in. intros i Hi. apply sorted_In in Hi.
+      destruct (HF i Hi) as [_ En]. unfold reset_ornt, mk_iface, rminus, rplus, rornt. simpl. now rewrite En. }
+    rewrite E. apply build_ifs_fresh.
+    - intros x Hx. unfold rl' in Hx. apply in_map_iff in Hx. destruct Hx as [i [<- Hi]].
+      apply sorted_In in Hi. unfold rminus, rplus, rornt. simpl.
+      destruct (side_all i Hi) as [Hm Hp]. destruct (HF i Hi) as [Hax _].
+      apply bjoin_default; auto; apply patch_dims; [apply face_valid in Hm|apply face_valid in Hp];
+        apply ints_In; tauto.
+    - simpl. unfold rl'. rewrite map_map.
+      rewrite (map_ext_in _ i_name sorted).
+      + eapply Permutation_NoDup; [|exact HN]. apply Permutation_map. symmetry. apply sort_perm.
+      + intros i Hi. apply sorted_In in Hi. destruct (HF i Hi) as [_ En].
+        unfold mk_iface, rminus, rplus. simpl. now rewrite En.
+  Qed.
+
+  Lemma all_faces_P' f : In f (all_faces P') <-> In f (all_faces ps).
+  Proof.
+    unfold P', ps. rewrite !all_faces_patch_dom.
+    split; intros [p [a [e [Hp H]]]]; exists p, a, e; (split; [apply ints_In in Hp || apply ints_In; exact Hp|exact H]).
+  Qed.
+
+  Lemma joined' f : In f (joined_faces rl') <-> In f (joined_faces rl).
+  Proof.
+    assert (E : joined_faces rl' = flat_map isides sorted).
+    { unfold joined_faces, rl'. rewrite flat_map_concat_map, map_map, <- flat_map_concat_map. reflexivity. }
+    rewrite E. split; intros H.
+    - apply (Permutation_in _ declared_sides_perm). apply in_flat_map in H. destruct H as [i [Hi Hs]].
+      apply in_flat_map. exists i. split; [now apply sorted_In|exact Hs].
+    - apply (Permutation_in _ (Permutation_sym declared_sides_perm)) in H.
+      apply in_flat_map in H. destruct H as [i [Hi Hs]].
+      apply in_flat_map. exists i. split; [now apply sorted_In|exact Hs].
+  Qed.
+
+  Lemma boundary' : join_boundary P' rl' = d_boundary D.
+  Proof.
+    destruct orig_facts as [_ [_ [_ [Hbd _]]]]. rewrite Hbd.
+    apply join_boundary_ext with (U := all_faces ps).
+    - exact Wf.
+    - intros f. apply all_faces_P'.
+    - intros f Hf. apply Wi. now apply joined'.
+    - intros f Hf. exact Hf.
+    - intros f Hf. now apply Wi.
+    - intros f. apply all_faces_P'.
+    - intros f. apply joined'.
+  Qed.
+
+  Lemma canon_ints : canonP (flat_map d_interiors P') = ints.
+  Proof.
+    unfold P'. rewrite flat_map_patch_dom_interiors, ints_eq. unfold canonP. apply canon_idem. exact Wn.
+  Qed.
+
+  Lemma join' : exists lifs,
+    join P' cs' nm = Ok (join_result P' nm rl' (map (reset_ornt dflt) sorted) lifs).
+  Proof.
+    assert (HL : exists lifs, forallb is_mapped (canonP (flat_map d_interiors P')) = true ->
+                              logical_conn (map (reset_ornt dflt) sorted) [] = Ok lifs).
+    { destruct (forallb is_mapped (canonP (flat_map d_interiors P'))) eqn:Hm.
+      - rewrite canon_ints in Hm. rewrite forallb_forall in Hm.
+        destruct (logical_conn_total (map (reset_ornt dflt) sorted) []) as [lifs Hl]; [|eauto].
+        intros j Hj. apply in_map_iff in Hj. destruct Hj as [i [<- Hi]]. apply sorted_In in Hi.
+        destruct (side_all i Hi) as [A B]. apply face_valid in A. apply face_valid in B. simpl.
+        rewrite (Hm _ (proj1 A)), (Hm _ (proj1 B)). reflexivity.
+      - exists []. discriminate. }
+    destruct HL as [lifs HL]. exists lifs.
+    apply join_intro; auto.
+    - unfold P'. rewrite map_length. apply ints_len.
+    - rewrite join_dim_P'. apply forallb_forall. intros d Hd. unfold P' in Hd.
+      apply in_map_iff in Hd. destruct Hd as [p [<- Hp]]. destruct (patch_dom_fields p) as [_ [E _]].
+      rewrite E. apply Nat.eqb_eq. apply patch_dims. now apply ints_In.
+    - apply resolve'.
+    - apply build'.
+    - destruct (existsb (fun p => Nat.ltb (length (d_boundary p)) 2) P') eqn:E; [|reflexivity]. exfalso.
+      apply existsb_exists in E. destruct E as [d [Hd Hlt]]. unfold P' in Hd.
+      apply in_map_iff in Hd. destruct Hd as [p [<- Hp]]. apply Nat.ltb_lt in Hlt.
+      destruct (patch_dom_fields p) as [_ [_ [_ [_ Hl]]]].
+      assert (patch_wf p) as [_ [_ [H1 _]]] by (apply Wp; now apply ints_In).
+      pose proof (patch_like_two _ _ Hl H1). lia.
+    - rewrite boundary'. lia.
+    - rewrite canon_ints. apply ints_len.
+  Qed.
+
+  Lemma from_dict_join : from_dict (fdict_of D) = join P' cs' nm.
+  Proof.
+    destruct orig_facts as [_ [_ [_ [Hbd [Hnm _]]]]].
+    unfold from_dict, fdict_of. cbn [fd_interior fd_dtype fd_boundary fd_conn fd_name bind]. fold ints.
+    rewrite combine_map.
+    rewrite (mapM_map_ok _ (fun p => (fint_of p, dtype_of p)) (fun p => ncube_domain (lpatch p))).
+    2:{ intros p Hp. simpl. apply dtype_roundtrip. apply Wp. now apply ints_In. }
+    cbn [bind]. rewrite combine_map.
+    rewrite (mapM_map_ok _ (fun p => (fint_of p, ncube_domain (lpatch p))) patch_dom).
+    2:{ intros p Hp. simpl. apply from_dict_patch. apply Wp. now apply ints_In. }
+    cbn [bind]. rewrite map_map.
+    rewrite (map_ext (fun p => d_name (ncube_domain (lpatch p))) p_lname) by reflexivity.
+    (* the loop over the boundary entries only checks that every face can be looked up *)
+    match goal with |- bind (mapM ?f ?l) _ = _ => destruct (mapM_exists f l) as [lb Hlb] end.
+    { intros bd Hbd'. apply in_map_iff in Hbd'. destruct Hbd' as [f [<- Hf]].
+      assert (Hfa : In f (all_faces ps)).
+      { rewrite Hbd in Hf. destruct (join_boundary_pre ps rl) as [Z [EZ HZ]]. rewrite EZ in Hf.
+        assert (W : fwf (all_faces ps ++ joined_faces rl)).
+        { eapply fwf_sub; [|exact Wf]. intros g Hg. apply in_app_or in Hg. destruct Hg; auto. }
+        assert (WZ : fwf Z) by (eapply fwf_sub; [|exact Wf]; intros g Hg; now apply (HZ W) in Hg).
+        unfold canonF in Hf. apply (canon_In _ _ _ _ WZ) in Hf. now apply (HZ W) in Hf. }
+      destruct (lookup_face f Hfa) as [E1 [E2 E3]]. unfold fbnd_of. simpl.
+      rewrite E1. cbn [bind]. fold P'. change P' with (map patch_dom ints). rewrite E2, E3. eauto. }
+    rewrite Hlb. cbn [bind].
+    rewrite (mapM_map_ok _ fconn_of (conn_of ints)).
+    2:{ intros i Hi. apply sorted_In in Hi. destruct (side_all i Hi) as [Hm Hp].
+        destruct (lookup_face _ Hm) as [E1 _]. destruct (lookup_face _ Hp) as [E2 _].
+        unfold fconn_of, fbnd_of. simpl. rewrite E1, E2. reflexivity. }
+    cbn [bind]. fold sorted. fold cs'. fold P'. rewrite Hnm.
+    pose proof ints_len as HL. unfold P' at 1.
+    destruct ints as [|a [|b l]]; simpl in HL; try lia. reflexivity.
+  Qed.
+
+  Theorem roundtrip_joined_section :
+    todict D = Ok (fdict_of D) /\
+    exists D', from_dict (fdict_of D) = Ok D'
+      /\ d_name D' = d_name D /\ d_dim D' = d_dim D /\ d_interiors D' = d_interiors D
+      /\ d_boundary D' = d_boundary D /\ d_mapping D' = d_mapping D
+      /\ d_conn D' = map (reset_ornt (default_ornt (d_dim D))) (sort i_name (d_conn D))
+      /\ todict D' = Ok (fdict_of D).
+  Proof.
+    split; [apply todict_multi; [apply ints_len|exact Hb2]|].
+    destruct join' as [lifs HJ']. rewrite from_dict_join, HJ'. eexists. split; [reflexivity|].
+    destruct orig_facts as [_ [_ [_ [_ [Hnm _]]]]].
+    assert (F : forall R, let D' := R in
+              d_name D' = nm -> d_dim D' = dim -> d_interiors D' = ints -> d_boundary D' = d_boundary D ->
+              d_conn D' = map (reset_ornt dflt) sorted -> todict D' = Ok (fdict_of D)).
+    { intros R D' A1 A2 A3 A4 A5. rewrite (todict_multi D').
+      - unfold fdict_of. rewrite A1, A2, A3, A4, A5, Hnm. fold ints. fold dim. do 2 f_equal.
+        rewrite sort_sorted_id.
+        + rewrite map_map. apply map_ext. intros i. reflexivity.
+        + apply StronglySorted_map_key; [reflexivity|]. apply sort_sorted.
+      - rewrite A3. apply ints_len.
+      - rewrite A4. exact Hb2. }
+    unfold join_result. rewrite canon_ints, boundary', join_dim_P'.
+    destruct (join_inv _ _ _ _ len_ps HJ) as [rl0 [ifs0 [_ [_ [_ [_ [_ [_ [_ [HM HU]]]]]]]]]].
+    fold ints in HM, HU.
+    destruct (forallb is_mapped ints) eqn:Hm; simpl.
+    - destruct (HM eq_refl) as [lf [_ [_ Emap]]].
+      split; [now symmetry|]. split; [reflexivity|]. split; [reflexivity|]. split; [reflexivity|].
+      split; [now rewrite Emap|]. split; [reflexivity|].
+      apply (F _); reflexivity.
+    - destruct (HU eq_refl) as [_ Emap].
+      split; [now symmetry|]. split; [reflexivity|]. split; [reflexivity|]. split; [reflexivity|].
+      split; [now rewrite Emap|]. split; [reflexivity|].
+      apply (F _); reflexivity.
+  Qed.
+End RoundTrip.
+
+(* the closed statement (the section hypotheses become premises) *)
+Definition roundtrip_hyps (pl : list patch) (cs : list conn) (nm : string) (D : domain)
+           (rl : list (face * face * ornt)) : Prop :=
+  (forall p, In p pl -> patch_wf p) /\ NoDup (map p_lname pl) /\ pwf pl
+  /\ fwf (all_faces (map patch_dom pl)) /\ 2 <= length pl
+  /\ join (map patch_dom pl) cs nm = Ok D /\ resolve_all (map patch_dom pl) cs = Ok rl
+  /\ NoDup (joined_faces rl) /\ rl_no_bar rl /\ pair_bound rl
+  /\ (forall f, In f (joined_faces rl) -> In f (all_faces (map patch_dom pl)))
+  /\ 2 <= length (d_boundary D).
+
+Theorem roundtrip_joined pl cs nm D rl :
+  roundtrip_hyps pl cs nm D rl ->
+  todict D = Ok (fdict_of D) /\
+  exists D', from_dict (fdict_of D) = Ok D'
+    /\ d_name D' = d_name D /\ d_dim D' = d_dim D /\ d_interiors D' = d_interiors D
+    /\ d_boundary D' = d_boundary D /\ d_mapping D' = d_mapping D
+    /\ d_conn D' = map (reset_ornt (default_ornt (d_dim D))) (sort i_name (d_conn D))
+    /\ todict D' = Ok (fdict_of D).
+Proof.
+  intros [H1 [H2 [H3 [H4 [H5 [H6 [H7 [H8 [H9 [H10 [H11 H12]]]]]]]]]]].
+  eapply roundtrip_joined_section; eauto.
+Qed.
+
+(* everything the file carries survives: the two exports coincide *)
+Corollary roundtrip_idempotent pl cs nm D rl fd :
+  roundtrip_hyps pl cs nm D rl -> todict D = Ok fd ->
+  exists D', from_dict fd = Ok D' /\ todict D' = Ok fd.
+Proof.
+  intros H E. destruct (roundtrip_joined _ _ _ _ _ H) as [E1 [D' [E2 [_ [_ [_ [_ [_ [_ E3]]]]]]]]].
+  rewrite E1 in E. inversion E; subst fd. eauto.
+Qed.
+
+(* decidable form of the hypotheses *)
+Definition roundtrip_wf_b (pl : list patch) (cs : list conn) (nm : string) : bool :=
+  let ps := map patch_dom pl in
+  forallb patch_wf_b pl && snodup (map p_lname pl) && pwf_b pl && fwf_b (all_faces ps)
+  && wf_join_b ps cs && pair_bound_b ps cs
+  && match resolve_all ps cs with
+     | Ok rl => forallb (fun f => existsb (face_beq f) (all_faces ps)) (joined_faces rl)
+     | Err _ => false
+     end
+  && match join ps cs nm with Ok D => Nat.leb 2 (length (d_boundary D)) | Err _ => false end.
+
+Lemma snodup_sound l : snodup l = true -> NoDup l.
+Proof.
+  induction l as [|s l IH]; simpl; [constructor|].
+  rewrite andb_true_iff, negb_true_iff. intros [H1 H2]. constructor; [|auto].
+  intros Hin. assert (smem s l = true); [|congruence].
+  unfold smem. apply existsb_exists. exists s. split; [exact Hin|apply String.eqb_refl].
+Qed.
+
+Theorem roundtrip_wf_b_sound pl cs nm :
+  roundtrip_wf_b pl cs nm = true -> exists D rl, roundtrip_hyps pl cs nm D rl.
+Proof.
+  unfold roundtrip_wf_b. set (ps := map patch_dom pl).
+  rewrite !andb_true_iff. intros [[[[[[[A1 A2] A3] A4] A5] A6] A7] A8].
+  destruct (wf_join_b_sound _ _ A5) as [rl [Hr [Hlen [W1 [W2 [W3 W4]]]]]].
+  rewrite Hr in A7. destruct (join ps cs nm) as [D|] eqn:EJ; [|discriminate].
+  exists D, rl. unfold roundtrip_hyps. fold ps.
+  split. { rewrite forallb_forall in A1. intros p Hp. apply patch_wf_b_sound. auto. }
+  split. { now apply snodup_sound. }
+  split. { now apply pwf_b_sound. }
+  split. { now apply fwf_b_sound. }
+  split. { unfold ps in Hlen. now rewrite map_length in Hlen. }
+  split; [exact EJ|]. split; [exact Hr|]. split; [exact W2|]. split; [exact W3|].
+  split. { now apply (pair_bound_b_sound ps cs). }
+  split. { rewrite forallb_forall in A7. intros f Hf. apply In_face_b. auto. }
+  now apply Nat.leb_le.
+Qed.
+
+(* ================================================================ C15: the orientation is not in the file *)
+Definition rt_pl : list patch := [sqA; sqB].
+Definition rt_cs : list conn := [mkConn (mkSide (PIdx 0) 0 1) (mkSide (PIdx 1) 0 (-1)) (Some (O2 (-1)))].
+
+Theorem roundtrip_ornt_refuted :
+  exists pl cs nm D rl D',
+    roundtrip_hyps pl cs nm D rl /\ from_dict (fdict_of D) = Ok D' /\
+    map i_ornt (sort i_name (d_conn D')) <> map i_ornt (sort i_name (d_conn D)).
+Proof.
+  destruct (roundtrip_wf_b_sound rt_pl rt_cs "AB") as [D [rl H]]; [vm_compute; reflexivity|].
+  destruct (roundtrip_joined _ _ _ _ _ H) as [_ [D' [E [_ [_ [_ [_ [_ [Ec _]]]]]]]]].
+  exists rt_pl, rt_cs, "AB", D, rl, D'. split; [exact H|]. split; [exact E|].
+  destruct H as [_ [_ [_ [_ [_ [HJ _]]]]]].
+  vm_compute in HJ. inversion HJ; subst D. clear HJ.
+  rewrite Ec. vm_compute. discriminate.
+Qed.
+
+(* ================================================================ C13: sub-domain extraction, the easy arms *)
+Theorem get_subdomain_empty d : get_subdomain d (SelTuple []) = Ok None.
+Proof. reflexivity. Qed.
+
+Definition valid_tuple (d : domain) (l : list string) : bool :=
+  snodup l && forallb (fun n => smem n (interior_names d) || String.eqb n (d_name d)) l.
+
+Theorem get_subdomain_invalid d l :
+  l <> [] -> valid_tuple d l = false -> get_subdomain d (SelTuple l) = Err EAssert.
+Proof.
+  intros Hne Hv. destruct l as [|s l]; [congruence|]. unfold get_subdomain, valid_tuple in *.
+  cbv beta iota. set (L := s :: l) in *.
+  destruct (snodup L); simpl negb; cbv iota; [|reflexivity].
+  simpl in Hv |- *. rewrite Hv. reflexivity.
+Qed.
+
+Theorem get_subdomain_unknown_name d s :
+  smem s (interior_names d) = false -> get_subdomain d (SelStr s) = Err EAssert.
+Proof. intros H. unfold get_subdomain. rewrite H. reflexivity. Qed.
+
+(* selecting every patch (or naming the domain itself) returns the domain itself *)
+Theorem get_subdomain_whole d l p1 p2 r :
+  d_interiors d = p1 :: p2 :: r -> l <> [] -> valid_tuple d l = true ->
+  (length l = length (interior_names d) \/ smem (d_name d) l = true) ->
+  get_subdomain d (SelTuple l) = Ok (Some d).
+Proof.
+  intros Hi Hne Hv Hw. destruct l as [|s l]; [congruence|]. unfold get_subdomain, valid_tuple in *.
+  cbv beta iota. set (L := s :: l) in *.
+  apply andb_true_iff in Hv. destruct Hv as [V1 V2]. rewrite V1. cbn [negb].
+  rewrite V2. cbn [negb bind]. rewrite Hi.
+  destruct Hw as [Hw|Hw].
+  - rewrite Hw, Nat.eqb_refl. reflexivity.
+  - rewrite Hw, orb_true_r. reflexivity.
+Qed.
+
+(* the trivial case of a single-patch domain *)
+Theorem get_subdomain_single_patch d p :
+  d_interiors d = [p] -> get_subdomain d (SelStr (pname p)) = Ok (Some d).
+Proof.
+  intros Hi. unfold get_subdomain, interior_names. rewrite Hi. simpl. rewrite !String.eqb_refl. simpl. rewrite String.eqb_refl. reflexivity.
+Qed.
+
+(* ================================================================ C13: refutations on the faithful model *)
+Definition lnA : patch := mkPatch "A" None 1 ["0"] ["1"].
+Definition lnB : patch := mkPatch "B" None 1 ["0"] ["1"].
+Definition lnC : patch := mkPatch "C" None 1 ["0"] ["1"].
+Definition ring3 : res domain :=
+  join [ncube_domain lnA; ncube_domain lnB; ncube_domain lnC]
+       [ mkConn (mkSide (PIdx 0) 0 1) (mkSide (PIdx 1) 0 (-1)) None;
+         mkConn (mkSide (PIdx 1) 0 1) (mkSide (PIdx 2) 0 (-1)) None;
+         mkConn (mkSide (PIdx 2) 0 1) (mkSide (PIdx 0) 0 (-1)) None ] "ring".
+
+(* a selected patch that keeps fewer than two boundary faces makes the extraction raise
+   (`for b in p.boundary` on a bare Boundary / None inside Domain.join) *)
+Theorem get_subdomain_raises_refuted :
+  exists D, ring3 = Ok D /\ valid_tuple D ["A"; "B"] = true /\
+            get_subdomain D (SelTuple ["A"; "B"]) = Err EType.
+Proof.
+  destruct ring3 as [D|] eqn:E; [|vm_compute in E; discriminate].
+  exists D. vm_compute in E. inversion E; subst D. split; [reflexivity|]. split; vm_compute; reflexivity.
+Qed.
+
+(* an interface from a patch to itself is neither kept as an interface nor returned to the boundary *)
+Definition self_conn : res domain :=
+  join [ncube_domain sqA; ncube_domain sqB]
+       [ mkConn (mkSide (PIdx 0) 0 1) (mkSide (PIdx 1) 0 (-1)) (Some (O2 1));
+         mkConn (mkSide (PIdx 0) 1 1) (mkSide (PIdx 0) 1 (-1)) (Some (O2 1)) ] "AB".
+
+Theorem get_subdomain_self_interface_refuted :
+  exists D S, self_conn = Ok D /\ get_subdomain D (SelTuple ["A"]) = Ok (Some S) /\
+    ~ In (mkFace sqA 1 1) (d_boundary S) /\
+    forall i, In i (d_conn S) -> mkFace sqA 1 1 <> i_minus i /\ mkFace sqA 1 1 <> i_plus i.
+Proof.
+  destruct self_conn as [D|] eqn:E; [|vm_compute in E; discriminate].
+  vm_compute in E. inversion E; subst D. clear E.
+  eexists. eexists. split; [reflexivity|]. split; [vm_compute; reflexivity|].
+  split; [intros H; apply In_face_b in H; vm_compute in H; discriminate|]. intros i [].
+Qed.
+
+(* a mapping applied to a joined domain forgets the orientation of the interfaces (2-D) ... *)
+Definition joined_m1 : res domain :=
+  join [ncube_domain sqA; ncube_domain sqB]
+       [ mkConn (mkSide (PIdx 0) 0 1) (mkSide (PIdx 1) 0 (-1)) (Some (O2 (-1))) ] "J".
+
+Theorem map_joined_orientation_refuted :
+  exists J D L, joined_m1 = Ok J /\ map_domain "M" J = Ok D /\ d_logical D = Some L /\
+    map i_ornt (d_conn L) = [O2 (-1)] /\ map i_ornt (d_conn D) = [ONone].
+Proof.
+  destruct joined_m1 as [J|] eqn:E; [|vm_compute in E; discriminate].
+  vm_compute in E. inversion E; subst J. clear E.
+  eexists. eexists. eexists. split; [reflexivity|]. split; [vm_compute; reflexivity|].
+  split; [reflexivity|]. split; reflexivity.
+Qed.
+
+(* ... and raises in 3-D (tuple(None) in Interface.__new__) *)
+Definition cbA : patch := mkPatch "A" None 3 ["0"; "0"; "0"] ["1"; "1"; "1"].
+Definition cbB : patch := mkPatch "B" None 3 ["0"; "0"; "0"] ["1"; "1"; "1"].
+Theorem map_joined_3d_refuted :
+  exists J, join [ncube_domain cbA; ncube_domain cbB]
+                 [ mkConn (mkSide (PIdx 0) 0 1) (mkSide (PIdx 1) 0 (-1)) None ] "J" = Ok J
+            /\ map_domain "M" J = Err EType.
+Proof.
+  destruct (join [ncube_domain cbA; ncube_domain cbB] _ "J") as [J|] eqn:E; [|vm_compute in E; discriminate].
+  exists J. split; [reflexivity|]. vm_compute in E. inversion E; subst J. vm_compute. reflexivity.
+Qed.
+
+(* two mappings applied to the same logical patch (the example in the docstring of Domain.join):
+   the logical domain collapses to one interior *)
+Theorem twin_shared_logical_refuted :
+  exists D L,
+    join [patch_dom (mkPatch "A" (Some "F0") 2 ["0"; "0"] ["1"; "1"]);
+          patch_dom (mkPatch "A" (Some "F1") 2 ["0"; "0"] ["1"; "1"])]
+         [ mkConn (mkSide (PIdx 0) 0 1) (mkSide (PIdx 1) 0 (-1)) (Some (O2 1)) ] "Omega" = Ok D
+    /\ d_logical D = Some L /\ length (d_interiors D) = 2 /\ length (d_interiors L) = 1.
+Proof.
+  match goal with |- exists D L, ?j = _ /\ _ => destruct j as [D|] eqn:E; [|vm_compute in E; discriminate] end.
+  vm_compute in E. inversion E; subst D. eexists. eexists. split; [reflexivity|].
+  split; [reflexivity|]. split; reflexivity.
+Qed.
+
+(* ================================================================ C13: sub-domain extraction, the general arm *)
+Lemma find_filter_same {A} (p q : A -> bool) l :
+  (forall x, In x l -> p x = true -> q x = true) -> find p (filter q l) = find p l.
+Proof.
+  induction l as [|a l IH]; simpl; intros H; [reflexivity|].
+  destruct (q a) eqn:Q; simpl.
+  - destruct (p a); [reflexivity|]. apply IH. intros; apply H; auto.
+  - destruct (p a) eqn:P.
+    + rewrite (H a (or_introl eq_refl) P) in Q. discriminate.
+    + apply IH. intros; apply H; auto.
+Qed.
+
+Lemma filter_and {A} (p q : A -> bool) l : filter p (filter q l) = filter (fun x => q x && p x) l.
+Proof.
+  induction l as [|a l IH]; simpl; [reflexivity|].
+  destruct (q a); simpl; [destruct (p a); now rewrite IH|exact IH].
+Qed.
+
+Lemma ikey_distinct a b c d i :
+  ikey_eqb a b i = true -> ikey_eqb c d i = true -> a = c /\ b = d.
+Proof.
+  unfold ikey_eqb. rewrite !andb_true_iff, !String.eqb_eq. intros [<- <-] [<- <-]. auto.
+Qed.
+
+(* one patch of the selection: the inner loop over the other patches *)
+Definition contrib_b (name : string) (names : list string) (idict : list iface) (o : string) : list face :=
+  if String.eqb o name || smem o names then [] else
+  (match find (ikey_eqb name o) idict with Some i => [i_minus i] | None => [] end)
+  ++ (match find (ikey_eqb o name) idict with Some i => [i_plus i] | None => [] end).
+Definition contrib_i (name : string) (names : list string) (idict : list iface) (o : string) : list iface :=
+  if String.eqb o name || negb (smem o names) then [] else
+  (match find (ikey_eqb o name) idict with Some i => [i] | None => [] end)
+  ++ (match find (ikey_eqb name o) idict with Some i => [i] | None => [] end).
+Definition popped (name : string) (others : list string) (i : iface) : bool :=
+  existsb (fun o => negb (String.eqb o name) && (ikey_eqb name o i || ikey_eqb o name i)) others.
+
+Lemma sub_others_spec name names : forall others idict bnds ifs,
+  NoDup others ->
+  sub_others name names others idict bnds ifs =
+  (filter (fun i => negb (popped name others i)) idict,
+   bnds ++ flat_map (contrib_b name names idict) others,
+   ifs ++ flat_map (contrib_i name names idict) others).
+Proof.
+  induction others as [|o r IH]; intros idict bnds ifs ND.
+  - simpl. rewrite !app_nil_r. f_equal. f_equal.
+    induction idict as [|a l IHl]; simpl; [reflexivity|]. now rewrite <- IHl.
+  - inversion ND as [|? ? Hn Hd]; subst. simpl sub_others.
+    destruct (String.eqb_spec o name) as [->|Hne].
+    + rewrite IH by exact Hd. simpl flat_map. unfold contrib_b at 2, contrib_i at 2.
+      rewrite String.eqb_refl. simpl. f_equal. f_equal.
+      apply filter_ext. intros i. unfold popped. simpl. rewrite String.eqb_refl. reflexivity.
+    + unfold pdict_pop.
+      set (d1 := filter (fun i => negb (ikey_eqb name o i)) idict).
+      set (d2 := filter (fun i => negb (ikey_eqb o name i)) d1).
+      assert (Hf2 : find (ikey_eqb o name) d1 = find (ikey_eqb o name) idict).
+      { unfold d1. apply find_filter_same. intros x _ Hx. apply negb_true_iff.
+        destruct (ikey_eqb name o x) eqn:E; [|reflexivity].
+        destruct (ikey_distinct _ _ _ _ _ Hx E). congruence. }
+      rewrite Hf2.
+      (* later lookups are not disturbed by the two pops *)
+      assert (Hlater : forall o', In o' r ->
+                contrib_b name names d2 o' = contrib_b name names idict o' /\
+                contrib_i name names d2 o' = contrib_i name names idict o').
+      { intros o' Ho'. assert (o' <> o) by (intros ->; contradiction).
+        assert (F1 : find (ikey_eqb name o') d2 = find (ikey_eqb name o') idict).
+        { unfold d2, d1. rewrite !find_filter_same; auto.
+          - intros x _ Hx. apply negb_true_iff. destruct (ikey_eqb name o x) eqn:E; [|reflexivity].
+            destruct (ikey_distinct _ _ _ _ _ Hx E). congruence.
+          - intros x _ Hx. apply negb_true_iff. destruct (ikey_eqb o name x) eqn:E; [|reflexivity].
+            destruct (ikey_distinct _ _ _ _ _ Hx E). congruence. }
+        assert (F2 : find (ikey_eqb o' name) d2 = find (ikey_eqb o' name) idict).
+        { unfold d2, d1. rewrite !find_filter_same; auto.
+          - intros x _ Hx. apply negb_true_iff. destruct (ikey_eqb name o x) eqn:E; [|reflexivity].
+            destruct (ikey_distinct _ _ _ _ _ Hx E). congruence.
+          - intros x _ Hx. apply negb_true_iff. destruct (ikey_eqb o name x) eqn:E; [|reflexivity].
+            destruct (ikey_distinct _ _ _ _ _ Hx E). congruence. }
+        unfold contrib_b, contrib_i. rewrite F1, F2. auto. }
+      assert (Hfm_b : flat_map (contrib_b name names d2) r = flat_map (contrib_b name names idict) r).
+      { clear - Hlater. induction r as [|x r IH]; simpl; [reflexivity|].
+        rewrite (proj1 (Hlater x (or_introl eq_refl))), IH; auto. intros; apply Hlater; now right. }
+      assert (Hfm_i : flat_map (contrib_i name names d2) r = flat_map (contrib_i name names idict) r).
+      { clear - Hlater. induction r as [|x r IH]; simpl; [reflexivity|].
+        rewrite (proj2 (Hlater x (or_introl eq_refl))), IH; auto. intros; apply Hlater; now right. }
+      assert (Hflt : filter (fun i => negb (popped name r i)) d2
+                     = filter (fun i => negb (popped name (o :: r) i)) idict).
+      { unfold d2, d1. rewrite !filter_and. apply filter_ext. intros a.
+        unfold popped. simpl existsb. rewrite (proj2 (String.eqb_neq o name) Hne). simpl negb.
+        destruct (ikey_eqb name o a), (ikey_eqb o name a), (existsb _ r); reflexivity. }
+      assert (Eon : String.eqb o name = false) by (now apply String.eqb_neq).
+      destruct (smem o names) eqn:Hs; simpl negb; cbv iota; rewrite IH by exact Hd;
+        rewrite Hfm_b, Hfm_i; (f_equal; [f_equal|]); try exact Hflt.
+      * simpl flat_map. unfold contrib_b at 2. rewrite Hs, orb_true_r. reflexivity.
+      * simpl flat_map. unfold contrib_i at 2. rewrite Hs, Eon. simpl orb. cbv iota.
+        destruct (find (ikey_eqb o name) idict), (find (ikey_eqb name o) idict); simpl;
+          rewrite <- ?app_assoc; reflexivity.
+      * simpl flat_map. unfold contrib_b at 2. rewrite Hs, Eon. simpl orb. cbv iota.
+        destruct (find (ikey_eqb name o) idict), (find (ikey_eqb o name) idict); simpl;
+          rewrite <- ?app_assoc; reflexivity.
+      * simpl flat_map. unfold contrib_i at 2. rewrite Hs, Eon. reflexivity.
+Qed.
+
+Lemma join2_inv pd nd nm J :
+  join [pd; nd] [] nm = Ok J ->
+  d_conn J = [] /\ d_name J = nm /\ d_dim J = d_dim pd
+  /\ d_interiors J = canonP (d_interiors pd ++ d_interiors nd)
+  /\ d_boundary J = canonF (d_boundary pd ++ d_boundary nd).
+Proof.
+  intros H. assert (Hlen : 2 <= length [pd; nd]) by (simpl; lia).
+  destruct (join_inv _ _ _ _ Hlen H) as [rl [ifs [Hr [Hb [Hn [Hd [Hc [Hi [Hbd _]]]]]]]]].
+  unfold resolve_all in Hr. simpl in Hr. inversion Hr; subst rl. simpl in Hb. inversion Hb as [Hc'].
+  split; [now rewrite Hc, <- Hc'|]. split; [exact Hn|]. split; [exact Hd|]. split.
+  - rewrite Hi. simpl. now rewrite app_nil_r.
+  - rewrite Hbd. unfold join_boundary, all_faces. simpl. now rewrite app_nil_r.
+Qed.
+
+Definition own (d : domain) (n : string) : list face :=
+  flat_map (fun a => flat_map (fun e =>
+     match find (fun f => String.eqb (pname (f_patch f)) n && Nat.eqb (f_axis f) a && Z.eqb (f_ext f) e)
+                (d_boundary d) with
+     | Some f => [f] | None => [] end) [(-1)%Z; 1%Z]) (seq 0 (d_dim d)).
+
+Lemma sub_loop_cons d name r names idict ifs prev :
+  sub_loop d (name :: r) names idict ifs prev =
+  if String.eqb name (d_name d) then Ok (Some d, []) else
+  match find (fun p => String.eqb (pname p) name) (d_interiors d) with
+  | None => Err EKey
+  | Some p =>
+      let '(idict', bnds, ifs') := sub_others name names (interior_names d) idict (own d name) ifs in
+      let nd := sub_single p bnds in
+      match prev with
+      | None => sub_loop d r names idict' ifs' (Some nd)
+      | Some pd => do j <- join [pd; nd] [] (String.append (d_name pd) (String.append "|" (d_name nd)));
+                   sub_loop d r names idict' ifs' (Some j)
+      end
+  end.
+Proof. reflexivity. Qed.
+
+Section SubDomain.
+  Variable d : domain.
+  Variable names : list string.
+  Let others := interior_names d.
+  Variable U : list face.
+  Hypothesis WU : fwf U.
+  Hypothesis WP : pwf (d_interiors d).
+
+  Fixpoint dicts (todo : list string) (idict : list iface) : list (string * list iface) :=
+    match todo with
+    | [] => []
+    | n :: r => (n, idict) :: dicts r (filter (fun i => negb (popped n others i)) idict)
+    end.
+  Definition Bof (x : string * list iface) : list face :=
+    own d (fst x) ++ flat_map (contrib_b (fst x) names (snd x)) others.
+  Definition Iof (x : string * list iface) : list iface :=
+    flat_map (contrib_i (fst x) names (snd x)) others.
+  Definition Pof (n : string) : list patch :=
+    match find (fun p => String.eqb (pname p) n) (d_interiors d) with Some p => [p] | None => [] end.
+
+  Hypothesis NDo : NoDup others.
+
+  Lemma sub_loop_inv : forall todo idict ifs prev jd ifs',
+    (forall n, In n todo -> n <> d_name d) ->
+    (forall x, In x (dicts todo idict) -> incl (Bof x) U) ->
+    (forall pd, prev = Some pd -> d_conn pd = [] /\ incl (d_boundary pd) U /\ incl (d_interiors pd) (d_interiors d)
+                                 /\ NoDup (d_interiors pd)) ->
+    sub_loop d todo names idict ifs prev = Ok (Some jd, ifs') ->
+    ifs' = ifs ++ flat_map Iof (dicts todo idict)
+    /\ d_conn jd = [] /\ NoDup (d_interiors jd)
+    /\ (forall f, In f (d_boundary jd) <->
+          (exists pd, prev = Some pd /\ In f (d_boundary pd)) \/ exists x, In x (dicts todo idict) /\ In f (Bof x))
+    /\ (forall p, In p (d_interiors jd) <->
+          (exists pd, prev = Some pd /\ In p (d_interiors pd)) \/ exists n, In n todo /\ In p (Pof n)).
+  Proof.
+    induction todo as [|name r IH]; intros idict ifs prev jd ifs' Hnd HB Hprev H.
+    - simpl in H. inversion H; subst. destruct (Hprev jd eq_refl) as [Hc [_ [_ Hnd']]].
+      simpl. rewrite app_nil_r. split; [reflexivity|]. split; [exact Hc|]. split; [exact Hnd'|]. split.
+      + intros f. split; [intros Hf; left; eauto|intros [[pd [E Hf]]|[x [[] _]]]; inversion E; now subst].
+      + intros p. split; [intros Hp; left; eauto|intros [[pd [E Hp]]|[x [[] _]]]; inversion E; now subst].
+    - rewrite sub_loop_cons in H.
+      destruct (String.eqb_spec name (d_name d)) as [E|_]; [exfalso; apply (Hnd name); [now left|exact E]|].
+      destruct (find (fun p => String.eqb (pname p) name) (d_interiors d)) as [p|] eqn:Ep; [|discriminate].
+      fold others in H.
+      rewrite (sub_others_spec name names others idict (own d name) ifs NDo) in H.
+      set (idict' := filter (fun i => negb (popped name others i)) idict) in *.
+      set (bnds := own d name ++ flat_map (contrib_b name names idict) others) in *.
+      cbv zeta in H.
+      set (nd := sub_single p bnds) in *.
+      assert (HBn : incl bnds U) by (apply (HB (name, idict)); simpl; now left).
+      assert (Wb : fwf bnds) by (eapply fwf_sub; [|exact WU]; exact HBn).
+      assert (Hpin : In p (d_interiors d)) by (apply find_some in Ep; tauto).
+      assert (Hnd_b : forall f, In f (d_boundary nd) <-> In f bnds).
+      { intros f. unfold nd, sub_single. simpl. unfold canonF. apply (canon_In _ _ _ _ Wb). }
+      assert (HPn : Pof name = [p]) by (unfold Pof; now rewrite Ep).
+      destruct prev as [pd|].
+      + apply bind_ok in H. destruct H as [j [Hj H]].
+        destruct (Hprev pd eq_refl) as [Hc [Hbi [Hii Hndp]]].
+        destruct (join2_inv _ _ _ _ Hj) as [Jc [_ [_ [Ji Jb]]]].
+        assert (Wj : fwf (d_boundary pd ++ d_boundary nd)).
+        { eapply fwf_sub; [|exact WU]. intros f Hf. apply in_app_or in Hf. destruct Hf as [Hf|Hf]; [auto|].
+          apply HBn. now apply Hnd_b. }
+        assert (Wpj : pwf (d_interiors pd ++ d_interiors nd)).
+        { eapply wf_incl; [|exact WP]. intros q Hq. apply in_app_or in Hq. destruct Hq as [Hq|Hq]; [auto|].
+          simpl in Hq. destruct Hq as [<-|[]]. exact Hpin. }
+        apply IH in H.
+        * destruct H as [E1 [E2 [E2' [E3 E4]]]]. simpl dicts. simpl flat_map. fold idict'.
+          split; [rewrite E1; unfold Iof at 2; simpl; now rewrite <- app_assoc|].
+          split; [exact E2|]. split; [exact E2'|]. split.
+          -- intros f. rewrite E3. split.
+             ++ intros [[pd' [Epd Hf]]|[x [Hx Hf]]].
+                ** inversion Epd; subst pd'. rewrite Jb in Hf. unfold canonF in Hf.
+                   apply (canon_In _ _ _ _ Wj) in Hf. apply in_app_or in Hf. destruct Hf as [Hf|Hf].
+                   --- left. eauto.
+                   --- right. exists (name, idict). split; [now left|]. now apply Hnd_b.
+                ** right. exists x. split; [now right|exact Hf].
+             ++ intros [[pd' [Epd Hf]]|[x [[<-|Hx] Hf]]].
+                ** inversion Epd; subst pd'. left. exists j. split; [reflexivity|]. rewrite Jb. unfold canonF.
+                   apply (canon_In _ _ _ _ Wj). apply in_or_app. now left.
+                ** left. exists j. split; [reflexivity|]. rewrite Jb. unfold canonF.
+                   apply (canon_In _ _ _ _ Wj). apply in_or_app. right. now apply Hnd_b.
+                ** right. eauto.
+          -- intros q. rewrite E4. split.
+             ++ intros [[pd' [Epd Hq]]|[n [Hn Hq]]].
+                ** inversion Epd; subst pd'. rewrite Ji in Hq. unfold canonP in Hq.
+                   apply (canon_In _ _ _ _ Wpj) in Hq. apply in_app_or in Hq. destruct Hq as [Hq|Hq].
+                   --- left. eauto.
+                   --- right. exists name. split; [now left|]. rewrite HPn. exact Hq.
+                ** right. exists n. split; [now right|exact Hq].
+             ++ intros [[pd' [Epd Hq]]|[n [[<-|Hn] Hq]]].
+                ** inversion Epd; subst pd'. left. exists j. split; [reflexivity|]. rewrite Ji. unfold canonP.
+                   apply (canon_In _ _ _ _ Wpj). apply in_or_app. now left.
+                ** left. exists j. split; [reflexivity|]. rewrite Ji. unfold canonP.
+                   apply (canon_In _ _ _ _ Wpj). apply in_or_app. right. rewrite HPn in Hq. exact Hq.
+                ** right. eauto.
+        * intros n Hn. apply Hnd. now right.
+        * intros x Hx. apply HB. simpl. now right.
+        * intros pd' Epd. inversion Epd; subst pd'. split; [exact Jc|]. split; [|split].
+          -- intros f Hf. rewrite Jb in Hf. unfold canonF in Hf. apply (canon_In _ _ _ _ Wj) in Hf.
+             apply in_app_or in Hf. destruct Hf as [Hf|Hf]; [auto|]. apply HBn. now apply Hnd_b.
+          -- intros q Hq. rewrite Ji in Hq. unfold canonP in Hq. apply (canon_In _ _ _ _ Wpj) in Hq.
+             apply in_app_or in Hq. destruct Hq as [Hq|Hq]; [auto|]. simpl in Hq. destruct Hq as [<-|[]]. exact Hpin.
+          -- rewrite Ji. unfold canonP. apply (canon_NoDup _ _ _ _ Wpj).
+      + apply IH in H.
+        * destruct H as [E1 [E2 [E2' [E3 E4]]]]. simpl dicts. simpl flat_map. fold idict'.
+          split; [rewrite E1; unfold Iof at 2; simpl; now rewrite <- app_assoc|].
+          split; [exact E2|]. split; [exact E2'|]. split.
+          -- intros f. rewrite E3. split.
+             ++ intros [[pd' [Epd Hf]]|[x [Hx Hf]]].
+                ** inversion Epd; subst pd'. right. exists (name, idict). split; [now left|]. now apply Hnd_b.
+                ** right. exists x. split; [now right|exact Hf].
+             ++ intros [[pd' [Epd Hf]]|[x [[<-|Hx] Hf]]]; [discriminate| |].
+                ** left. exists nd. split; [reflexivity|]. now apply Hnd_b.
+                ** right. eauto.
+          -- intros q. rewrite E4. split.
+             ++ intros [[pd' [Epd Hq]]|[n [Hn Hq]]].
+                ** inversion Epd; subst pd'. right. exists name. split; [now left|]. rewrite HPn. exact Hq.
+                ** right. exists n. split; [now right|exact Hq].
+             ++ intros [[pd' [Epd Hq]]|[n [[<-|Hn] Hq]]]; [discriminate| |].
+                ** left. exists nd. split; [reflexivity|]. rewrite HPn in Hq. exact Hq.
+                ** right. eauto.
+        * intros n Hn. apply Hnd. now right.
+        * intros x Hx. apply HB. simpl. now right.
+        * intros pd' Epd. inversion Epd; subst pd'. split; [reflexivity|]. split; [|split].
+          -- intros f Hf. apply HBn. now apply Hnd_b.
+          -- intros q Hq. simpl in Hq. destruct Hq as [<-|[]]. exact Hpin.
+          -- simpl. repeat constructor. intros [].
+  Qed.
+
+  (* ------------------------------------------------------------ the dictionaries seen by each name *)
+  Definition dict_after (pre : list string) (idict : list iface) : list iface :=
+    fold_left (fun dct m => filter (fun i => negb (popped m others i)) dct) pre idict.
+
+  Lemma dict_after_In pre : forall idict x,
+    In x (dict_after pre idict) <-> In x idict /\ forall m, In m pre -> popped m others x = false.
+  Proof.
+    induction pre as [|m pre IH]; intros idict x; simpl.
+    - split; [intros H; split; [exact H|tauto]|tauto].
+    - rewrite IH, filter_In, negb_true_iff. split.
+      + intros [[A B] C]. split; [exact A|]. intros m' [<-|Hm']; auto.
+      + intros [A B]. split; [split; [exact A|apply B; now left]|]. intros m' Hm'. apply B. now right.
+  Qed.
+
+  Lemma dicts_In : forall todo idict n dct,
+    In (n, dct) (dicts todo idict) <->
+    exists pre post, todo = pre ++ n :: post /\ dct = dict_after pre idict.
+  Proof.
+    induction todo as [|a r IH]; intros idict n dct; simpl.
+    - split; [tauto|]. intros [pre [post [E _]]]. destruct pre; discriminate.
+    - split.
+      + intros [E|H].
+        * inversion E; subst. exists [], r. auto.
+        * apply IH in H. destruct H as [pre [post [-> ->]]]. exists (a :: pre), post. auto.
+      + intros [pre [post [E ->]]]. destruct pre as [|b pre]; simpl in E; inversion E; subst.
+        * now left.
+        * right. apply IH. exists pre, post. auto.
+  Qed.
+
+  Lemma find_none_iff {A} (p : A -> bool) l : find p l = None <-> forall x, In x l -> p x = false.
+  Proof.
+    split; [apply find_none|]. induction l as [|a l IH]; simpl; intros H; [reflexivity|].
+    rewrite (H a (or_introl eq_refl)). apply IH. intros; apply H; auto.
+  Qed.
+
+  Lemma find_dict_after (p : iface -> bool) pre idict :
+    (forall x, In x idict -> p x = true -> forall m, In m pre -> popped m others x = false) ->
+    find p (dict_after pre idict) = find p idict.
+  Proof.
+    revert idict. induction pre as [|m pre IH]; intros idict H; simpl; [reflexivity|].
+    rewrite IH.
+    - apply find_filter_same. intros x Hx Px. apply negb_true_iff. apply (H x Hx Px). now left.
+    - intros x Hx Px m' Hm'. apply filter_In in Hx. apply (H x (proj1 Hx) Px). now right.
+  Qed.
+
+  Lemma find_dict_after_none (p : iface -> bool) pre idict m :
+    In m pre -> (forall x, In x idict -> p x = true -> popped m others x = true) ->
+    find p (dict_after pre idict) = None.
+  Proof.
+    intros Hm H. apply find_none_iff. intros x Hx. apply dict_after_In in Hx. destruct Hx as [Hx Hp].
+    destruct (p x) eqn:Px; [|reflexivity]. specialize (Hp m Hm). rewrite (H x Hx Px) in Hp. discriminate.
+  Qed.
+
+  Lemma popped_names m a b x :
+    ikey_eqb a b x = true -> popped m others x = true -> m = a \/ m = b.
+  Proof.
+    intros K H. unfold popped in H. apply existsb_exists in H. destruct H as [o [_ H]].
+    apply andb_true_iff in H. destruct H as [_ H]. apply orb_true_iff in H. destruct H as [H|H].
+    - left. now destruct (ikey_distinct _ _ _ _ _ H K).
+    - right. now destruct (ikey_distinct _ _ _ _ _ H K).
+  Qed.
+
+  Lemma popped_left a b x : ikey_eqb a b x = true -> a <> b -> In b others -> popped a others x = true.
+  Proof.
+    intros K Hne Hb. unfold popped. apply existsb_exists. exists b. split; [exact Hb|].
+    rewrite K. simpl. rewrite andb_true_r. apply negb_true_iff. apply String.eqb_neq. congruence.
+  Qed.
+
+  Lemma popped_right a b x : ikey_eqb a b x = true -> a <> b -> In a others -> popped b others x = true.
+  Proof.
+    intros K Hne Ha. unfold popped. apply existsb_exists. exists a. split; [exact Ha|].
+    rewrite K. rewrite orb_true_r, andb_true_r. apply negb_true_iff. now apply String.eqb_neq.
+  Qed.
+
+  (* ------------------------------------------------------------ what each name contributes, in terms of the
+     initial dictionary only *)
+  Variable idict0 : list iface.
+  Hypothesis KU : forall a b x y, In x idict0 -> In y idict0 ->
+                                 ikey_eqb a b x = true -> ikey_eqb a b y = true -> x = y.
+  Hypothesis NDn : NoDup names.
+
+  Lemma find_key dct a b i :
+    (forall x, In x dct -> In x idict0) ->
+    (find (ikey_eqb a b) dct = Some i <-> In i dct /\ ikey_eqb a b i = true).
+  Proof.
+    intros Hsub. split.
+    - intros H. apply find_some in H. exact H.
+    - intros [Hi Hk]. destruct (find (ikey_eqb a b) dct) as [j|] eqn:E.
+      + apply find_some in E. destruct E as [Hj Kj]. f_equal. apply (KU a b); auto.
+      + rewrite (find_none _ _ E i Hi) in Hk. discriminate.
+  Qed.
+
+  Lemma smem_In x l : smem x l = true <-> In x l.
+  Proof.
+    unfold smem. rewrite existsb_exists. split.
+    - intros [y [Hy E]]. apply String.eqb_eq in E. now subst.
+    - intros H. exists x. split; [exact H|apply String.eqb_refl].
+  Qed.
+
+  Lemma Bof_char pre n post f :
+    names = pre ++ n :: post ->
+    (In f (Bof (n, dict_after pre idict0)) <->
+     In f (own d n) \/
+     exists o i, In o others /\ o <> n /\ ~ In o names /\ In i idict0 /\
+                 ((ikey_eqb n o i = true /\ f = i_minus i) \/ (ikey_eqb o n i = true /\ f = i_plus i))).
+  Proof.
+    intros En. unfold Bof. simpl fst. simpl snd. rewrite in_app_iff.
+    assert (Hn_pre : ~ In n pre).
+    { rewrite En in NDn. apply NoDup_remove_2 in NDn. intros H. apply NDn. apply in_or_app. now left. }
+    assert (Hpre : forall m, In m pre -> In m names) by (intros m Hm; rewrite En; apply in_or_app; now left).
+    assert (Hlook : forall a b, (a = n /\ ~ In b names) \/ (b = n /\ ~ In a names) ->
+              forall i, find (ikey_eqb a b) (dict_after pre idict0) = Some i <-> In i idict0 /\ ikey_eqb a b i = true).
+    { intros a b Hab i. rewrite find_dict_after.
+      - apply find_key. auto.
+      - intros x Hx Kx m Hm. destruct (popped m others x) eqn:P; [|reflexivity]. exfalso.
+        destruct (popped_names m a b x Kx P) as [->| ->]; destruct Hab as [[-> Hb]|[-> Ha]]; auto. }
+    apply or_iff_compat_l. rewrite in_flat_map. split.
+    - intros [o [Ho Hf]]. unfold contrib_b in Hf.
+      destruct (String.eqb_spec o n) as [->|Hon]; [destruct Hf|]. simpl in Hf.
+      destruct (smem o names) eqn:Hs; [destruct Hf|].
+      assert (Hnot : ~ In o names) by (intros H; apply smem_In in H; congruence).
+      apply in_app_or in Hf. destruct Hf as [Hf|Hf].
+      + destruct (find (ikey_eqb n o) (dict_after pre idict0)) as [i|] eqn:E; [|destruct Hf].
+        destruct Hf as [<-|[]]. apply (Hlook n o) in E; [|left; auto]. exists o, i. tauto.
+      + destruct (find (ikey_eqb o n) (dict_after pre idict0)) as [i|] eqn:E; [|destruct Hf].
+        destruct Hf as [<-|[]]. apply (Hlook o n) in E; [|right; auto]. exists o, i. tauto.
+    - intros [o [i [Ho [Hon [Hnot [Hi H]]]]]]. exists o. split; [exact Ho|]. unfold contrib_b.
+      destruct (String.eqb_spec o n); [contradiction|]. simpl.
+      destruct (smem o names) eqn:Hs; [apply smem_In in Hs; contradiction|].
+      apply in_or_app. destruct H as [[K ->]|[K ->]].
+      + left. rewrite (proj2 (Hlook n o (or_introl (conj eq_refl Hnot)) i) (conj Hi K)). now left.
+      + right. rewrite (proj2 (Hlook o n (or_intror (conj eq_refl Hnot)) i) (conj Hi K)). now left.
+  Qed.
+
+  Hypothesis Hnames : forall n, In n names -> In n others.
+
+  Lemma first_of (a b : string) : forall l, NoDup l -> In a l -> In b l -> a <> b ->
+    exists pre post, (l = pre ++ a :: post /\ ~ In b pre) \/ (l = pre ++ b :: post /\ ~ In a pre).
+  Proof.
+    induction l as [|x l IH]; intros ND Ha Hb Hne; [destruct Ha|].
+    inversion ND as [|? ? Hn Hd]; subst.
+    destruct Ha as [->|Ha].
+    - exists [], l. left. auto.
+    - destruct Hb as [->|Hb].
+      + exists [], l. right. auto.
+      + destruct (IH Hd Ha Hb Hne) as [pre [post [[-> Hp]|[-> Hp]]]].
+        * exists (x :: pre), post. left. split; [reflexivity|]. intros [->|H]; [|auto].
+          apply Hn. apply in_or_app. right. right. clear - Hb Hne Hp.
+          apply in_app_or in Hb. destruct Hb as [Hb|[Hb|Hb]]; [contradiction|congruence|exact Hb].
+        * exists (x :: pre), post. right. split; [reflexivity|]. intros [->|H]; [|auto].
+          apply Hn. apply in_or_app. right. right. clear - Ha Hne Hp.
+          apply in_app_or in Ha. destruct Ha as [Ha|[Ha|Ha]]; [contradiction|congruence|exact Ha].
+  Qed.
+
+  Lemma Iof_char i :
+    In i (flat_map Iof (dicts names idict0)) <->
+    In i idict0 /\ exists a b, In a names /\ In b names /\ a <> b /\ ikey_eqb a b i = true.
+  Proof.
+    rewrite in_flat_map. split.
+    - intros [[n dct] [Hx Hi]]. apply dicts_In in Hx. destruct Hx as [pre [post [En ->]]].
+      unfold Iof in Hi. simpl fst in Hi. simpl snd in Hi. apply in_flat_map in Hi. destruct Hi as [o [Ho Hi]].
+      unfold contrib_i in Hi. destruct (String.eqb_spec o n) as [->|Hon]; [destruct Hi|]. simpl in Hi.
+      destruct (smem o names) eqn:Hs; [|destruct Hi]. simpl in Hi. apply smem_In in Hs.
+      assert (Hn : In n names) by (rewrite En; apply in_or_app; right; now left).
+      apply in_app_or in Hi. destruct Hi as [Hi|Hi].
+      + destruct (find (ikey_eqb o n) (dict_after pre idict0)) as [j|] eqn:E; [|destruct Hi].
+        destruct Hi as [<-|[]]. apply find_some in E. destruct E as [Hj K].
+        apply dict_after_In in Hj. split; [tauto|]. exists o, n. auto.
+      + destruct (find (ikey_eqb n o) (dict_after pre idict0)) as [j|] eqn:E; [|destruct Hi].
+        destruct Hi as [<-|[]]. apply find_some in E. destruct E as [Hj K].
+        apply dict_after_In in Hj. split; [tauto|]. exists n, o. auto.
+    - intros [Hi [a [b [Ha [Hb [Hne K]]]]]].
+      destruct (first_of a b names NDn Ha Hb Hne) as [pre [post [[En Hp]|[En Hp]]]].
+      + (* a comes first: at its turn the entry (a, b) is still there *)
+        exists (a, dict_after pre idict0). split; [apply dicts_In; eauto|].
+        unfold Iof. simpl fst. simpl snd. apply in_flat_map. exists b. split; [now apply Hnames|].
+        unfold contrib_i. destruct (String.eqb_spec b a); [congruence|]. simpl.
+        rewrite (proj2 (smem_In b names) Hb). simpl. apply in_or_app. right.
+        assert (Ha_pre : ~ In a pre).
+        { rewrite En in NDn. apply NoDup_remove_2 in NDn. intros H. apply NDn. apply in_or_app. now left. }
+        assert (E : find (ikey_eqb a b) (dict_after pre idict0) = Some i).
+        { rewrite find_dict_after.
+          - apply find_key; auto.
+          - intros x Hx Kx m Hm. destruct (popped m others x) eqn:P; [|reflexivity]. exfalso.
+            destruct (popped_names m a b x Kx P) as [->| ->]; auto. }
+        rewrite E. now left.
+      + exists (b, dict_after pre idict0). split; [apply dicts_In; eauto|].
+        unfold Iof. simpl fst. simpl snd. apply in_flat_map. exists a. split; [now apply Hnames|].
+        unfold contrib_i. destruct (String.eqb_spec a b); [congruence|]. simpl.
+        rewrite (proj2 (smem_In a names) Ha). simpl. apply in_or_app. left.
+        assert (Hb_pre : ~ In b pre).
+        { rewrite En in NDn. apply NoDup_remove_2 in NDn. intros H. apply NDn. apply in_or_app. now left. }
+        assert (E : find (ikey_eqb a b) (dict_after pre idict0) = Some i).
+        { rewrite find_dict_after.
+          - apply find_key; auto.
+          - intros x Hx Kx m Hm. destruct (popped m others x) eqn:P; [|reflexivity]. exfalso.
+            destruct (popped_names m a b x Kx P) as [->| ->]; auto. }
+        rewrite E. now left.
+  Qed.
+End SubDomain.
+
+(* ================================================================ the theorem on sub-domain extraction *)
+Definition sub_idict (d : domain) : list iface := fold_left (fun acc i => pdict_set i acc) (interfaces d) [].
+
+Lemma own_sub d n f : In f (own d n) ->
+  In f (d_boundary d) /\ pname (f_patch f) = n /\ f_axis f < d_dim d /\ (f_ext f = 1%Z \/ f_ext f = (-1)%Z).
+Proof.
+  unfold own. rewrite in_flat_map. intros [a [Ha Hf]]. apply in_seq in Ha.
+  rewrite in_flat_map in Hf. destruct Hf as [e [He Hf]].
+  destruct (find _ (d_boundary d)) as [g|] eqn:E; [|destruct Hf]. destruct Hf as [<-|[]].
+  apply find_some in E. destruct E as [Hin Hb]. rewrite !andb_true_iff in Hb. destruct Hb as [[B1 B2] B3].
+  apply String.eqb_eq in B1. apply Nat.eqb_eq in B2. apply Z.eqb_eq in B3.
+  split; [exact Hin|]. split; [exact B1|]. split; [lia|]. simpl in He. rewrite B3. destruct He as [<-|[<-|[]]]; auto.
+Qed.
+
+Lemma own_In d U n f : fwf U -> incl (d_boundary d) U ->
+  (In f (own d n) <->
+   In f (d_boundary d) /\ pname (f_patch f) = n /\ f_axis f < d_dim d /\ (f_ext f = 1%Z \/ f_ext f = (-1)%Z)).
+Proof.
+  intros W HU. split; [apply own_sub|]. intros [Hin [Hn [Ha He]]].
+  unfold own. apply in_flat_map. exists (f_axis f). split; [apply in_seq; lia|].
+  apply in_flat_map. exists (f_ext f). split; [simpl; destruct He as [-> | ->]; auto|].
+  destruct (find (fun g => String.eqb (pname (f_patch g)) n && Nat.eqb (f_axis g) (f_axis f) && Z.eqb (f_ext g) (f_ext f))
+                 (d_boundary d)) as [g|] eqn:E.
+  - left. apply find_some in E. destruct E as [Hg Hb]. rewrite !andb_true_iff in Hb. destruct Hb as [[B1 B2] B3].
+    apply String.eqb_eq in B1. apply Nat.eqb_eq in B2. apply Z.eqb_eq in B3.
+    destruct W as [W1 _]. apply (W1 g f); auto. unfold face_pyeqb.
+    rewrite B1, Hn, B2, B3, String.eqb_refl, Nat.eqb_refl, Z.eqb_refl. reflexivity.
+  - exfalso. pose proof (find_none _ _ E f Hin) as Hc. simpl in Hc.
+    rewrite Hn, String.eqb_refl, Nat.eqb_refl, Z.eqb_refl in Hc. discriminate.
+Qed.
+
+Lemma dict_set_In_unique a acc j :
+  (forall x, In x acc -> i_name x = i_name a -> x = a) ->
+  (In j (dict_set a acc) <-> j = a \/ In j acc).
+Proof.
+  induction acc as [|b acc IH]; simpl; intros H.
+  - split; [intros [<-|[]]; auto|intros [->|[]]; auto].
+  - destruct (String.eqb_spec (i_name b) (i_name a)) as [E|E].
+    + rewrite (H b (or_introl eq_refl) E). simpl. split; [intros [->|A]; auto|intros [->|[->|A]]; auto].
+    + simpl. rewrite IH; [|intros x Hx; apply H; now right]. split; [intros [->|[->|A]]; auto|intros [->|[->|A]]; auto].
+Qed.
+
+Lemma fold_dict_set_In : forall l acc,
+  (forall x y, In x (acc ++ l) -> In y (acc ++ l) -> i_name x = i_name y -> x = y) ->
+  forall i, In i (fold_left (fun acc i => dict_set i acc) l acc) <-> In i acc \/ In i l.
+Proof.
+  induction l as [|a l IH]; intros acc H i; simpl; [tauto|].
+  assert (Ha : forall x, In x acc -> i_name x = i_name a -> x = a).
+  { intros x Hx E. apply H; auto; apply in_or_app; [now left|right; now left]. }
+  rewrite IH.
+  - rewrite (dict_set_In_unique a acc i Ha). split; [intros [[->|A]|B]; auto|intros [A|[->|B]]; auto].
+  - intros x y Hx Hy E. apply H; auto.
+    + apply in_app_or in Hx. destruct Hx as [Hx|Hx]; [apply (dict_set_In_unique a acc x Ha) in Hx; destruct Hx as [->|Hx]|];
+        apply in_or_app; simpl; auto.
+    + apply in_app_or in Hy. destruct Hy as [Hy|Hy]; [apply (dict_set_In_unique a acc y Ha) in Hy; destruct Hy as [->|Hy]|];
+        apply in_or_app; simpl; auto.
+Qed.
+
+Record sub_hyps (d : domain) (l : list string) (U : list face) : Prop := {
+  sh_wf : fwf U;
+  sh_pwf : pwf (d_interiors d);
+  sh_names : NoDup (interior_names d);
+  sh_bnd : incl (d_boundary d) U;
+  sh_sides : forall i, In i (sub_idict d) -> In (i_minus i) U /\ In (i_plus i) U;
+  sh_keys : forall a b x y, In x (sub_idict d) -> In y (sub_idict d) ->
+                            ikey_eqb a b x = true -> ikey_eqb a b y = true -> x = y;
+  sh_inames : forall x y, In x (sub_idict d) -> In y (sub_idict d) -> i_name x = i_name y -> x = y;
+  sh_multi : 2 <= length (d_interiors d);
+  sh_sel : l <> [] /\ valid_tuple d l = true /\ length l <> length (interior_names d)
+           /\ smem (d_name d) l = false }.
+
+Theorem get_subdomain_spec d l U S :
+  sub_hyps d l U -> get_subdomain d (SelTuple l) = Ok (Some S) ->
+  (forall p, In p (d_interiors S) <-> In p (d_interiors d) /\ In (pname p) l)
+  /\ (forall f, In f (d_boundary S) <->
+        exists n, In n l /\
+          (In f (own d n) \/
+           exists o i, In o (interior_names d) /\ o <> n /\ ~ In o l /\ In i (sub_idict d) /\
+                       ((ikey_eqb n o i = true /\ f = i_minus i) \/ (ikey_eqb o n i = true /\ f = i_plus i))))
+  /\ (forall i, In i (d_conn S) <->
+        In i (sub_idict d) /\ exists a b, In a l /\ In b l /\ a <> b /\ ikey_eqb a b i = true).
+Proof.
+  intros [WU WP NDo HbU Hsides KU NU Hmulti [Hne [Hv [Hlen Hdn]]]] H.
+  unfold valid_tuple in Hv. apply andb_true_iff in Hv. destruct Hv as [V1 V2].
+  assert (NDl : NoDup l) by (now apply snodup_sound).
+  assert (Hin_names : forall n, In n l -> In n (interior_names d)).
+  { intros n Hn. rewrite forallb_forall in V2. specialize (V2 n Hn). apply orb_true_iff in V2.
+    destruct V2 as [V|V]; [now apply smem_In in V|]. apply String.eqb_eq in V. subst n.
+    apply smem_In in Hn. congruence. }
+  assert (Hnot_d : forall n, In n l -> n <> d_name d).
+  { intros n Hn ->. apply smem_In in Hn. congruence. }
+  (* unfold the tuple arm *)
+  destruct l as [|s0 l0]; [congruence|]. set (l := s0 :: l0) in *.
+  unfold get_subdomain in H. cbv beta iota in H. fold l in H.
+  rewrite V1, V2 in H. cbn [negb bind] in H.
+  destruct (d_interiors d) as [|p1 [|p2 r0]] eqn:Ei; simpl in Hmulti; try lia.
+  cbv iota in H. clear Hmulti. rewrite <- Ei in *. clear Ei p1 p2 r0.
+  assert (Hl' : Nat.eqb (length l) (length (interior_names d)) = false) by (now apply Nat.eqb_neq).
+  rewrite Hl', Hdn in H. cbn [orb] in H. fold (sub_idict d) in H.
+  apply bind_ok in H. destruct H as [[o ifs] [Hloop H]].
+  destruct o as [jd|]; [|discriminate].
+  assert (HBU : forall x, In x (dicts d l (sub_idict d)) -> incl (Bof d l x) U).
+  { intros [n dct] Hx f Hf. apply dicts_In in Hx. destruct Hx as [pre [post [En ->]]].
+    unfold Bof in Hf. simpl fst in Hf. simpl snd in Hf. apply in_app_or in Hf. destruct Hf as [Hf|Hf].
+    - apply HbU. now apply own_sub in Hf.
+    - apply in_flat_map in Hf. destruct Hf as [o [_ Hf]]. unfold contrib_b in Hf.
+      destruct (String.eqb o n || smem o l); [destruct Hf|]. apply in_app_or in Hf. destruct Hf as [Hf|Hf].
+      + destruct (find _ _) as [i|] eqn:E; [|destruct Hf]. destruct Hf as [<-|[]].
+        apply find_some in E. destruct E as [E _]. apply dict_after_In in E. now apply Hsides.
+      + destruct (find _ _) as [i|] eqn:E; [|destruct Hf]. destruct Hf as [<-|[]].
+        apply find_some in E. destruct E as [E _]. apply dict_after_In in E. now apply Hsides. }
+  assert (WP' : pwf (d_interiors d)) by exact WP.
+  destruct (sub_loop_inv d l U WU WP' NDo l (sub_idict d) [] None jd ifs Hnot_d HBU) as [E1 [E2 [E2' [E3 E4]]]];
+    [discriminate|exact Hloop|].
+  simpl in E1.
+  (* the number of interiors differs from that of d: the `return self` arm is not taken *)
+  assert (Hints : forall p, In p (d_interiors jd) <-> In p (d_interiors d) /\ In (pname p) l).
+  { intros p. rewrite E4. split.
+    - intros [[pd [Epd _]]|[n [Hn Hp]]]; [discriminate|]. unfold Pof in Hp.
+      destruct (find _ (d_interiors d)) as [q|] eqn:Eq; [|destruct Hp]. destruct Hp as [<-|[]].
+      apply find_some in Eq. destruct Eq as [Hq Eq]. apply String.eqb_eq in Eq. split; [exact Hq|]. now rewrite Eq.
+    - intros [Hp Hn]. right. exists (pname p). split; [exact Hn|]. unfold Pof.
+      destruct (find (fun q => String.eqb (pname q) (pname p)) (d_interiors d)) as [q|] eqn:Eq.
+      + apply find_some in Eq. destruct Eq as [Hq Eq]. apply String.eqb_eq in Eq.
+        left. destruct WP as [_ Winj]. now apply Winj.
+      + pose proof (find_none _ _ Eq p Hp) as Hc. simpl in Hc. rewrite String.eqb_refl in Hc. discriminate. }
+  assert (Hcount : length (d_interiors jd) <> length (d_interiors d)).
+  { assert (P : Permutation (map pname (d_interiors jd)) l).
+    { apply NoDup_Permutation; [|exact NDl|].
+      - apply NoDup_map_of_inj; [exact E2'|]. intros x y Hx Hy E. destruct WP as [_ Winj].
+        apply Winj; auto; [apply Hints in Hx|apply Hints in Hy]; tauto.
+      - intros n. rewrite in_map_iff. split.
+        + intros [p [<- Hp]]. apply Hints in Hp. tauto.
+        + intros Hn. pose proof (Hin_names n Hn) as Ho. unfold interior_names in Ho.
+          apply in_map_iff in Ho. destruct Ho as [p [<- Hp]]. exists p. split; [reflexivity|]. apply Hints. auto. }
+    apply Permutation_length in P. rewrite map_length in P. unfold interior_names in Hlen.
+    rewrite map_length in Hlen. rewrite P. exact Hlen. }
+  destruct (Nat.eqb (length (d_interiors jd)) (length (d_interiors d))) eqn:Ec;
+    [apply Nat.eqb_eq in Ec; contradiction|].
+  rewrite andb_false_r in H. inversion H; subst S; clear H.
+  split; [|split].
+  - intros p. destruct jd; simpl in *. apply Hints.
+  - intros f. assert (Eb : d_boundary (set_conn jd (fold_left (fun acc i => dict_set i acc) ifs (d_conn jd))) = d_boundary jd)
+      by (destruct jd; reflexivity).
+    rewrite Eb, E3. split.
+    + intros [[pd [Epd _]]|[[n dct] [Hx Hf]]]; [discriminate|].
+      pose proof Hx as Hx'. apply dicts_In in Hx'. destruct Hx' as [pre [post [En ->]]].
+      exists n. split; [fold l; rewrite En; apply in_or_app; right; now left|].
+      apply (Bof_char d l (sub_idict d) KU NDl pre n post f En) in Hf. exact Hf.
+    + intros [n [Hn Hf]]. right.
+      destruct (in_split _ _ Hn) as [pre [post En]].
+      exists (n, dict_after d pre (sub_idict d)). split; [apply dicts_In; eauto|].
+      apply (Bof_char d l (sub_idict d) KU NDl pre n post f En). exact Hf.
+  - intros i. assert (Ec' : d_conn (set_conn jd (fold_left (fun acc i => dict_set i acc) ifs (d_conn jd)))
+                            = fold_left (fun acc i => dict_set i acc) ifs []).
+    { destruct jd; simpl in *. now rewrite E2. }
+    rewrite Ec', E1.
+    assert (Hsub : forall x, In x (flat_map (Iof d l) (dicts d l (sub_idict d))) -> In x (sub_idict d)).
+    { intros x Hx. now apply (Iof_char d l (sub_idict d) KU NDl Hin_names x) in Hx. }
+    rewrite fold_dict_set_In.
+    + rewrite <- (Iof_char d l (sub_idict d) KU NDl Hin_names i).
+      split; [intros [[]|A]; exact A|intros A; now right].
+    + intros x y Hx Hy. apply NU; apply Hsub; assumption.
+Qed.
+
+(* the hypotheses of get_subdomain_spec in decidable form *)
+Definition sub_U (d : domain) : list face := d_boundary d ++ flat_map isides (sub_idict d).
+Definition pairwise_b {A} (r : A -> A -> bool) (l : list A) : bool := forallb (fun x => forallb (r x) l) l.
+Definition same_key_b (x y : iface) : bool :=
+  String.eqb (pname (f_patch (i_minus x))) (pname (f_patch (i_minus y)))
+  && String.eqb (pname (f_patch (i_plus x))) (pname (f_patch (i_plus y))).
+Definition sub_hyps_b (d : domain) (l : list string) : bool :=
+  fwf_b (sub_U d) && pwf_b (d_interiors d) && snodup (interior_names d)
+  && pairwise_b (fun x y => implb (same_key_b x y) (iface_beq x y)) (sub_idict d)
+  && pairwise_b (fun x y => implb (String.eqb (i_name x) (i_name y)) (iface_beq x y)) (sub_idict d)
+  && Nat.leb 2 (length (d_interiors d))
+  && match l with [] => false | _ => true end
+  && valid_tuple d l && negb (Nat.eqb (length l) (length (interior_names d))) && negb (smem (d_name d) l).
+
+Lemma ornt_beq_eq x y : ornt_beq x y = true <-> x = y.
+Proof.
+  destruct x, y; simpl; try (split; [discriminate|congruence]).
+  - tauto.
+  - rewrite Z.eqb_eq. split; congruence.
+  - rewrite !andb_true_iff, !Z.eqb_eq. split; [intros [[-> ->] ->]; reflexivity|intros E; inversion E; auto].
+Qed.
+
+Lemma iface_beq_eq x y : iface_beq x y = true <-> x = y.
+Proof.
+  destruct x as [n m p o], y as [n' m' p' o']. unfold iface_beq; simpl.
+  rewrite !andb_true_iff, String.eqb_eq, !face_beq_eq, ornt_beq_eq.
+  split; [intros [[[-> ->] ->] ->]; reflexivity|intros E; inversion E; auto].
+Qed.
+
+Lemma pairwise_b_spec {A} (r : A -> A -> bool) l :
+  pairwise_b r l = true -> forall x y, In x l -> In y l -> r x y = true.
+Proof.
+  unfold pairwise_b. rewrite forallb_forall. intros H x y Hx Hy.
+  specialize (H x Hx). rewrite forallb_forall in H. auto.
+Qed.
+
+Theorem sub_hyps_b_sound d l : sub_hyps_b d l = true -> sub_hyps d l (sub_U d).
+Proof.
+  unfold sub_hyps_b. rewrite !andb_true_iff, !negb_true_iff.
+  intros [[[[[[[[[A1 A2] A3] A4] A5] A6] A7] A8] A9] A10].
+  constructor.
+  - now apply fwf_b_sound.
+  - now apply pwf_b_sound.
+  - now apply snodup_sound.
+  - intros f Hf. unfold sub_U. apply in_or_app. now left.
+  - intros i Hi. unfold sub_U. split; apply in_or_app; right; apply in_flat_map; exists i;
+      (split; [exact Hi|unfold isides; simpl; auto]).
+  - intros a b x y Hx Hy Kx Ky. apply iface_beq_eq.
+    pose proof (pairwise_b_spec _ _ A4 x y Hx Hy) as H. simpl in H.
+    assert (E : same_key_b x y = true).
+    { unfold same_key_b, ikey_eqb in *. apply andb_true_iff in Kx, Ky. destruct Kx as [K1 K2], Ky as [K3 K4].
+      apply String.eqb_eq in K1, K2, K3, K4. rewrite K1, K2, K3, K4, !String.eqb_refl. reflexivity. }
+    rewrite E in H. exact H.
+  - intros x y Hx Hy E. apply iface_beq_eq.
+    pose proof (pairwise_b_spec _ _ A5 x y Hx Hy) as H. simpl in H.
+    rewrite E, String.eqb_refl in H. exact H.
+  - now apply Nat.leb_le.
+  - split; [destruct l; [discriminate|congruence]|]. split; [exact A8|]. split; [now apply Nat.eqb_neq|exact A10].
+Qed.
+
+(* ================================================================ Domain.interfaces (the sorted Union) has exactly
+   the values of the connectivity dictionary *)
+Lemma NoDup_map_inj_on {A B} (f : A -> B) l a b :
+  NoDup (map f l) -> In a l -> In b l -> f a = f b -> a = b.
+Proof.
+  induction l as [|x l IH]; simpl; [tauto|]. intros ND Ha Hb E. inversion ND as [|? ? Hn Hd]; subst.
+  destruct Ha as [->|Ha], Hb as [->|Hb]; auto.
+  - exfalso. apply Hn. rewrite E. now apply in_map.
+  - exfalso. apply Hn. rewrite <- E. now apply in_map.
+Qed.
+
+Lemma face_pyeqb_refl f : face_pyeqb f f = true.
+Proof. unfold face_pyeqb. now rewrite String.eqb_refl, Nat.eqb_refl, Z.eqb_refl. Qed.
+
+Lemma ornt_beq_refl o : ornt_beq o o = true.
+Proof. now apply ornt_beq_eq. Qed.
+
+Theorem interfaces_In D :
+  NoDup (map i_name (d_conn D)) ->
+  (forall i, In i (interfaces D) <-> In i (d_conn D))
+  /\ NoDup (interfaces D) /\ StronglySorted (kle i_name) (interfaces D).
+Proof.
+  intros ND. unfold interfaces.
+  assert (W : wf iface_pyeqb i_name (d_conn D)).
+  { split; intros a b Ha Hb.
+    - split.
+      + unfold iface_pyeqb. rewrite !andb_true_iff. intros [[[E _] _] _]. apply String.eqb_eq in E.
+        eapply NoDup_map_inj_on; eauto.
+      + intros ->. unfold iface_pyeqb. now rewrite String.eqb_refl, !face_pyeqb_refl, ornt_beq_refl.
+    - intros E. eapply NoDup_map_inj_on; eauto. }
+  split; [intros i; apply (canon_In _ _ _ _ W)|]. split; [apply (canon_NoDup _ _ _ _ W)|apply canon_sorted].
+Qed.
